@@ -12,1201 +12,1377 @@ Definition show_fres (r : fres) : string :=
   end.
 Definition check (rs : list rune) : string := digest (show_fres (format_res rs)).
 Definition full (rs : list rune) : string := show_fres (format_res rs).
-Eval vm_compute in ("<<<M3564>>>" ++ check (runes_of_ascii "// " ++ [128512]%N ++ runes_of_ascii " emoji
-packet f32a {
-    falsey,
-}
+Eval vm_compute in ("<<<M3610>>>" ++ check (runes_of_ascii "  MetaData
+BodyLength {	zchar[	42// trailing space 
+    ]  falsey ,
+    x_y_z
 
-packet metadata {
-    @lengthOf(tag)
-    u8 A @calculatedFrom(""" ++ [28040; 24687]%N ++ runes_of_ascii """) `// not a comment`,
-    @calculatedFrom(""" ++ [28040; 24687]%N ++ runes_of_ascii """)
-    i64 i64_ @calculatedFrom(""abc"") `a\`,
-    u8 u128,
-    string_ `line1
-        line2`,
-    @calculatedFrom(""\" ++ [233]%N ++ runes_of_ascii """)
-    @calculatedFrom(""it's"")
-    @calculatedFrom(""\n"")
-    repeat pack {
-        zchar[0] Foo @lengthOf(uint8x),
-        float32 x,
-    },
-    repeat roots `a\`,
-    f64 Header @calculatedFrom(""// no comment""),
-    zchar[42] zchar,
-    options1 o `" ++ [28040; 24687; 31867; 22411]%N ++ runes_of_ascii "`,
-    repeat zchar[7] len,// " ++ [27880; 37322]%N ++ runes_of_ascii "
-}
+trueish 
+`{ , }`,	options1  Header`
+`
+    ,
+uint8
+Header `tab	here`
+	,
 
-packet MetaDataX {
-    @calculatedFrom(""a	b"")
-    repeat u128 {
-        match rootA as crc {
-            007 : pack,
-            10 : u8x,
-            ""a\\"" : falsey,
-            [
-                0, 42, 255, 10, ""{,}"",
-                """ ++ [233]%N ++ runes_of_ascii "t" ++ [233]%N ++ runes_of_ascii """, ""\n"", ""// no comment""
-            ] : leftPad,
-            ""1"" : x_y_z,
-            7 : Z9_,
-        },
-    },
-    msg_type {
-        repeat char[] Pad,/// triple
-        uint16 body,
-    },
-    // `tick` ""quote"" 'q'
-    uint16 u @lengthOf(leftPad),
-    @tag(255)
-    repeat u128 {
-        repeat string_,
-        repeatCount pack,
-        repeat stringy {
-            zchar[10] crc `doc`,
-            i16 leftPad @calculatedFrom(""it's"") `
-                        `,
-            tag {
-                repeat char[] repeatCount `u8 x,`,
-                match stringy as Foo {
-                    1 : asx,
-                },
-                match i64_ as Packet {
-                    ""a\""b"" : Pad,
-                    ""a\\"" : o,
-                    [
-                        0, 0123456789, 7, 1, 1,
-                        7
-                    ] : matchKey,
-                },
-            },
-        },
-        i64 body @lengthOf(metadata) `u8 x,`,
-    },
-    string crc `two words`,
-    @lengthOf(charz)
-    @calculatedFrom(""" ++ [233]%N ++ runes_of_ascii "t" ++ [233]%N ++ runes_of_ascii """)
-    match string_ as stringy {
-        // @lengthOf(
-        [0] : pack,
-        ""CRC32"" : crc,
-        1 : int,
-    },
-    repeat u8 matchKey ``,
-    repeat int8 matchKey,
-    Header crc,
-}// `tick` ""quote"" 'q'")).
-Eval vm_compute in ("<<<M4496>>>" ++ check (runes_of_ascii "// trailing space 
-root packet options1 {
-    match u8x as tag {
-        1 : As,
-    },
-}// " ++ [128512]%N ++ runes_of_ascii " emoji
+uint8 
+// packet A { u8 x, }
 
-root packet roots {
-    MetaDataX @calculatedFrom(""abc""),//
-    repeat zchar uint8x,
-    u8x roots,// packet A { u8 x, }
-    a1 `u8 x,`,
-    float32 int @lengthOf(metadata) `a\`,
-    match charz as i8i8 {
-        42 : Pad,
-        [10, ""1""] : pack,
-    },
-    repeat Header,
-}
+zchar, float64
+len  ,
+}	packet  //x
+    chars
 
-packet repeatCount {
-    @lengthOf(metadata)
-    @calculatedFrom(""CRC32"")
-    @lengthOf(x_y_z)
-    As @lengthOf(u128),
-    @calculatedFrom(""a	b"")
-    // " ++ [27880; 37322]%N ++ runes_of_ascii "
-    o {
-        A @calculatedFrom(""CRC32"") `it's`,
-        body `{ , }`,
-    },
-    @calculatedFrom(""packet"")
-    @lengthOf(A)
-    @tag(255)
-    repeat BodyLength trueish,
-    u {
-        Pad {
-            string repeatCount ``,
-        },
-    },
-    @tag(4294967296)
-    @tag(10)
-    repeat zchar tag,
-    repeat crc {
-        repeat tag T `" ++ [28040; 24687; 31867; 22411]%N ++ runes_of_ascii "`,//
-        match matchKey as crc {
-            4294967296 : tag,
-            """ ++ [128512]%N ++ runes_of_ascii """ : Packet,
-            65535 : uint8x,
-        },
-        pack {
-            f32 zchar @calculatedFrom(""abc""),
-        },
-        match zchar as options1 {
-            //
-            // @lengthOf(
-            0123456789 : x,
-            007 : repeatCount,
-            [0123456789, ""packet"", ""// no comment"", ""x y""] : Header,
-            3 : MetaDataX,
-            ""// no comment"" : len,
-            [0] : Header,
-        },
-    },
-    repeat f32a {
-        repeat Header,// " ++ [27880; 37322]%N ++ runes_of_ascii "
-        calculatedFrom {
-            a1 {
-                leftPad `say ""hi""`,
-                zchar[255] f32a @calculatedFrom(""\n"") `// not a comment`,
-                Foo @lengthOf(o) `" ++ [233]%N ++ runes_of_ascii "`,
-            },
-        },
-    },
-}")).
-Eval vm_compute in ("<<<M3695>>>" ++ check (runes_of_ascii "packet a1 {
-    repeat uint8x {
-        zchar[3] metadata @lengthOf(chars) `it's`,
-        u8 packetx @calculatedFrom(""CRC32"") `two words`,
-        repeat leftPad {
-            match MetaDataX as f32a {
-                [4294967296] : packetx,
-                255 : As,
-                [007, 7, ""\n"", ""\" ++ [233]%N ++ runes_of_ascii """, """ ++ [128512]%N ++ runes_of_ascii """] : float,
-                0123456789 : u128,
-                ""a\""b"" : calculatedFrom,
-            },
-            match len as u {
-                [42, 4294967296] : a1,
-                ""it's"" : rootA,
-                7 : lengthOf,
-                ""`tick`"" : rootA,
-                4294967296 : calculatedFrom,
-            },
-            repeat string MetaDataX `it's`,
-        },
-        uint16 uint8x,
-    },
-    string_ @lengthOf(u),
-    zchar[0123456789] pack @calculatedFrom("""") `u8 x,`,
-    @lengthOf(x_y_z)
-    @lengthOf(u128)
-    @tag(007)
-    zchar[10] _x `doc`,
-    string BodyLength,
-    // `tick` ""quote"" 'q'
-    // `tick` ""quote"" 'q'
-    i64 msg_type `u8 x,`,
-    f64 Pad `say ""hi""`,
-    string float,
-    f64 lengthOf @calculatedFrom(""" ++ [28040; 24687]%N ++ runes_of_ascii """),// " ++ [128512]%N ++ runes_of_ascii " emoji
-}
+{
+zchar[00 ] options1  ,zchar[  // c
+7
 
-options {
-    // packet A { u8 x, }
-    matchKey = f32;
-}
+]
 
-packet Foo {
-    repeat T,
-    repeat string_ {
-        i16 uint8x,
-    },
-    repeat falsey A `doc`,
-    repeat lengthOf i8i8 `tab	here`,
-    repeat char[10] x_y_z ``,//	t
-    @leftPad()
-    @rightPad()
-    options1 `doc`,
-    u32 packetx,
-    u8 float `crlf
-    line`,
-}
+    Header , @tag(
 
-packet tag {
-}")).
-Eval vm_compute in ("<<<M681>>>" ++ check (runes_of_ascii "options {	charz ='\x00'
-string_ = true
-    ; Z9_ = false ; repeatCount	= 7
-; stringy =true }
-MetaData
-lengthOf{ zchar[10
-    ] //x
-uint8x , string u`line1
-line2` , int8
-matchKey
-`two words`
-    ,falsey //
-Z9_
-, packetx pack , u8x x_y_z`line1
-line2` , } packet len //	t
-{ char[] Z9_
-    @calculatedFrom(""""
-    ), zchar[
-    4294967296 ]len `{ , }`,
-// @lengthOf(
-// c
-i32 msg_type `two words`
-    ,@lengthOf( A
-    )	roots `two words` , match Foo as T
-{0 : //x
-rootA
-,255 : packetx 0123456789 :  body /// triple
-, ""abc""
-:
-_x 007:
-As ,""abc""
-    :
-    A, // `tick` ""quote"" 'q'
-} ,body { Pad
-,
+    0 )
+
 char[]
-    body
-@lengthOf( rootA
-    ),	}
-,	match packetx as i64_{ ""x y"" : options1 // " ++ [27880; 37322]%N ++ runes_of_ascii "
+
+    MetaDataX  `line1
+line2`
+, repeat
+metadata
+	{ i64 
+        // packet A { u8 x, }
+    // @lengthOf(
+
+  MetaDataX
+, 
+int8 
+o ,  leftPad  Pad, string	Z9_	`u8 x,`
+
+, }
 ,
-    ""x y"" : _x , } ,
-@calculatedFrom( ""CRC32"") match options1 // @lengthOf(
-as
-a1{	1 : Z9_ , [
-7 ] :
-// " ++ [27880; 37322]%N ++ runes_of_ascii "
+@leftPad  (  '0'
+)u64
+calculatedFrom 
 // trailing space 
-crc,	0 : u
-    //x
-    ,
-    [ ""\n""
-    , ""abc""] :
-    repeatCount [
-    ""\n"" , 0 , 42, ""{,}""
-]:
-x_y_z ,
-    } ,@rightPad ( '\x00'
-    ) repeat i32 MetaDataX `" ++ [233]%N ++ runes_of_ascii "`  , @rightPad
-    (
-    '0' ) matchKey MetaDataX `` , } // " ++ [128512]%N ++ runes_of_ascii " emoji
+      // c
+  	@calculatedFrom( ""a\""b""
+    ), 
+@lengthOf( 
+leftPad	) repeat
+
+Foo 
+`line1
+line2`
+,
+}
 packet
-    string_
-{	rootA
-{ repeat
-    lengthOf MetaDataX
-    , string_ @calculatedFrom( ""it's"" ),repeat	float32 msg_type `say ""hi""`
-    // @lengthOf(
-    , f32 metadata ,
-    } , repeat uint32 u `a\` ,	}
-")).
-Eval vm_compute in ("<<<M204>>>" ++ check (runes_of_ascii "packet i64_ {
-    @leftPad( ) @tag(	4294967296
-) repeat	string Logon `{ , }`
-    ,@lengthOf(
-    float )u16
-    //x
-    matchKey @lengthOf(
-body
-) , repeat
-    /// triple
-    char[  4294967296 ]
-tag , @lengthOf(asx )
-repeat
-    trueish , repeat
-    lengthOf
-len
-,// packet A { u8 x, }
-match asx
-    as
-    crc {
-    [ // a // b
-""" ++ [28040; 24687]%N ++ runes_of_ascii """
-// trailing space 
-// c
-, ""abc"" ] :
-roots
-, },	match
-    uint8x as
-repeatCount
-    { [
-0123456789
-    ]:
-    /// triple
-    Foo ,""a\""b""
-    : Packet
-    42  :
-    stringy , [ // `tick` ""quote"" 'q'
-0123456789 , 007
-] : f32a , //x
-42: x }
-    // @lengthOf(
-    ,
-@lengthOf( msg_type )
-uint8x , repeat metadata// " ++ [27880; 37322]%N ++ runes_of_ascii "
-,} MetaData float { char[ 42
-] Logon
-`a\` , stringy packetx , int32 pack,rootA
-x
-    , Logon Foo , u16 A
-//	t
-//x
-, } //x
-packet
-    //	t
-    Header{  @calculatedFrom(
-    ""1"" ) u
-,@tag( 65535
-// a // b
-// trailing space 
+	options1 
+        //x
+		//	t
+
+	{ @tag(	00)
+body asx
+	, 
+    // a // b
+
+  // " ++ [128512]%N ++ runes_of_ascii " emoji
+  repeat  MetaDataX{
+	repeat  i64
+
+    u8x	`" ++ [233]%N ++ runes_of_ascii "`,
+},pack@calculatedFrom(""CRC32""
 )
-pack { string trueish `" ++ [28040; 24687; 31867; 22411]%N ++ runes_of_ascii "`
-    , match
-stringy
-    as tag
-{  ""a\\"" : float
-    // `tick` ""quote"" 'q'
+`
+` , repeat	Pad{ Foo{
+repeat
+i8i8 ,
+MetaDataX
+, 
+
+// @lengthOf(
+	lengthOf
+
+    @calculatedFrom(""abc""
+)
+	`// not a comment`
+, 	 /// triple
+  }
+
     ,
-    ""abc"" :Z9_ ,007 :	metadata, // c
-[ 10 ] :matchKey // " ++ [27880; 37322]%N ++ runes_of_ascii "
-, ""a	b"" : _x 7// " ++ [128512]%N ++ runes_of_ascii " emoji
-:Pad } ,  repeat body
-, f32 int , } ,  MetaDataX u128 `doc` , }
-options {}
-")).
-Eval vm_compute in ("<<<M1406>>>" ++ check (runes_of_ascii "options {
-	StringPrefixLenType = u16;
-	ArrayPrefixLenType = u16;
-}
 
-packet SampleBinary {
-	uint16 MsgType `" ++ [28040; 24687; 31867; 22411]%N ++ runes_of_ascii "`,
-	u16 BodyLenght @lengthOf(Body) `" ++ [28040; 24687; 20307; 38271; 24230]%N ++ runes_of_ascii "`,
-	match MsgType as Body {
-		1 : Logon,
-		2 : Logout,
-		3 : Heartbeat,
-		4 : RiskControlRequest,
-		5 : RiskControlResponse,
-	},
-	@calculatedFrom(""CRC32"")
-	u32 Ckecksum `" ++ [26657; 39564; 21644]%N ++ runes_of_ascii "`,
-}
-
-packet Logon {
-	@leftPad('0')
-	char[10] UserName `" ++ [29992; 25143; 21517]%N ++ runes_of_ascii "`,
-	string Password `" ++ [23494; 30721]%N ++ runes_of_ascii "`,
-	uint64 ClientId `" ++ [23458; 25143; 31471]%N ++ runes_of_ascii "ID`,
-	u16 HeartbeatInterval `" ++ [24515; 36339; 38388; 38548]%N ++ runes_of_ascii "`,
-}
-
-packet Logout {
-	@rightPad('0')
-	char[10] UserName `" ++ [29992; 25143; 21517]%N ++ runes_of_ascii "`,
-	uint64 ClientId `" ++ [23458; 25143; 31471]%N ++ runes_of_ascii "ID`,
-}
-
-packet Heartbeat {
-}
-
-packet RiskControlRequest {
-	string UniqueOrderId `" ++ [21807; 19968; 35746; 21333; 21495]%N ++ runes_of_ascii "`,
-	char[16] ClOrdID `" ++ [23458; 25143; 35746; 21333; 21495]%N ++ runes_of_ascii "`,
-	char[3] MarketID `" ++ [24066; 22330]%N ++ runes_of_ascii "id`,
-	char[12] SecurityID `" ++ [35777; 21048; 20195; 30721]%N ++ runes_of_ascii "`,
-	char Side `" ++ [20080; 21334; 26041; 21521]%N ++ runes_of_ascii "`,
-	char OrderType `" ++ [35746; 21333; 31867; 22411]%N ++ runes_of_ascii "`,
-	u64 Price `" ++ [20215; 26684]%N ++ runes_of_ascii "`,
-	u32 Qty `" ++ [25968; 37327]%N ++ runes_of_ascii "`,
-	repeat string ExtraInfo `" ++ [38468; 21152; 20449; 24687]%N ++ runes_of_ascii "`,
-	repeat SubOrder {
-		char[16] ClOrdID `" ++ [23376; 35746; 21333; 21495]%N ++ runes_of_ascii "`,
-		u64 Price `" ++ [23376; 35746; 21333; 20215; 26684]%N ++ runes_of_ascii "`,
-		u32 Qty `" ++ [23376; 35746; 21333; 25968; 37327]%N ++ runes_of_ascii "`,
-	},
-}
-
-packet RiskControlResponse {
-	string UniqueOrderId `" ++ [21807; 19968; 35746; 21333; 21495]%N ++ runes_of_ascii "`,
-	i32 Status `" ++ [29366; 24577]%N ++ runes_of_ascii "`,
-	string Msg `" ++ [32467; 26524; 20449; 24687]%N ++ runes_of_ascii "`,
-	repeat Detail,
-}
-
-packet Detail {
-	string RuleName `" ++ [35268; 21017; 21517; 31216]%N ++ runes_of_ascii "`,
-	u16 Code `" ++ [21407; 22240; 20195; 30721]%N ++ runes_of_ascii "`,
-}")).
-Eval vm_compute in ("<<<M957>>>" ++ check (runes_of_ascii "packet options1 {body int
-`" ++ [28040; 24687; 31867; 22411]%N ++ runes_of_ascii "` ,
-    }MetaData T // " ++ [27880; 37322]%N ++ runes_of_ascii "
-{ leftPad
-charz , o roots	, } packet float
-{ @lengthOf( x_y_z )repeat i8
-    // `tick` ""quote"" 'q'
-    calculatedFrom
-`" ++ [233]%N ++ runes_of_ascii "`
-,repeat stringy `
-` , @tag( 007)
-    /// triple
-    @rightPad
-    ( ' ' ) f32a
-    @lengthOf(
-len ) , @lengthOf(  u8x )	match
-chars
-as metadata { ""x y""
-    :
-matchKey, // trailing space 
-""a\""b"" :
-zchar
-, [
-    ""a\\"", 4294967296 ] :
-calculatedFrom , 1  : T,
-    7
-: i8i8 ,
-}
-, u128 tag
-    `" ++ [233]%N ++ runes_of_ascii "`,T
-@calculatedFrom( ""{,}"" )
-    `doc`,
-/// triple
-// c
-}
-    packet  uint8x
-{
-    }root // `tick` ""quote"" 'q'
-packet zchar { @tag(
-    // packet A { u8 x, }
-    1 )
-match packetx as
-calculatedFrom { 007 : chars , """ ++ [128512]%N ++ runes_of_ascii """ :  crc,  ""a	b""
-: Foo // @lengthOf(
-,
-    42:u8x ,
-    [ ""\" ++ [233]%N ++ runes_of_ascii """] :
-u8x , [  ""it's"" , ""1"" ,
-1, ""\n""	,
-00
-]:
-MetaDataX ,
-} , @tag( 00 )
-char x ,
-@leftPad( '\x00')
-    @calculatedFrom( """ ++ [28040; 24687]%N ++ runes_of_ascii """) @lengthOf(repeatCount //
-)  u128 falsey`doc`,// c
-falsey @calculatedFrom( """" ),float64 Logon	@calculatedFrom( """ ++ [28040; 24687]%N ++ runes_of_ascii """ )
-//x
-// a // b
-`it's`,
     }
-")).
-Eval vm_compute in ("<<<M3714>>>" ++ check (runes_of_ascii "root packet chars {
-    @tag(1)
-    zchar[0123456789] MetaDataX,
-    f32 Packet,
-    @rightPad(' ')
-    repeat chars {
-        o stringy `crlf
-        line`,
-        matchKey int,
-    },
-}
+,float64  string_
+@calculatedFrom(//
+    ""it's""
 
-packet uint8x {
-    match stringy as len {
-        ""CRC32"" : trueish,
-        [3, 42] : x_y_z,
-        ""CRC32"" : leftPad,
-        // " ++ [128512]%N ++ runes_of_ascii " emoji
-        [
-            3, 42, 255, 0123456789, ""a\\"",
-            ""1"", ""it's"", ""CRC32""
-        ] : uint8x,
-        //	t
-        [
-            42, 7, 65535, 42, ""a	b"",
-            """", """"
-        ] : x_y_z,
-    },
-    repeat trueish {
-        repeat As `u8 x,`,
-    },
-    repeat chars `two words`,
-    @rightPad('\x00')
-    repeat f64 _x `" ++ [233]%N ++ runes_of_ascii "`,
-    repeat i16 u `say ""hi""`,// c
-    @lengthOf(x)
-    i8i8 {
-        match options1 as a1 {
-            1 : u128,
-        },
-    },
-    string chars,
-    repeat char[] Logon `it's`,
-    u8 float @lengthOf(o) `{ , }`,
-    @lengthOf(int)
-    @tag(1)
-    asx @calculatedFrom(""\" ++ [233]%N ++ runes_of_ascii """),// `tick` ""quote"" 'q'
-}")).
-Eval vm_compute in ("<<<M3549>>>" ++ check (runes_of_ascii "// top
-options
-    // c0
-{ // c1a
-  // c1b
-LittleEndian // c2a
-  // c2b
-= // c3
-true // c4
-;
-    // c5
-} packet // c7a
-  // c7b
-Logon // c8
-{ // c9a
-  // c9b
-u8
-    // c10
-x // c11
-, } // c13a
-  // c13b
-packet Logout // c15a
-  // c15b
-{ u16 // c17a
-  // c17b
-reason , } // c20a
-  // c20b
-root packet Frame // c23a
-  // c23b
-{ i64
-    // c25
-Kind , // c27
-i64
-    // c28
-Kind2 // c29a
-  // c29b
-, // c30a
-  // c30b
-match // c31a
-  // c31b
-Kind
-    // c32
-as // c33
-Body // c34
-{
-    // c35
-1 // c36
-:
-    // c37
-Logon // c38
-, // c39a
-  // c39b
+)
+
+    `u8 x,`
+	, 
+i8
+	Z9_@lengthOf( _x )
+,	BodyLength	matchKey
+`tab	here`, uint64
+    // " ++ [128512]%N ++ runes_of_ascii " emoji
+	  As @calculatedFrom(
+	""// no comment""	)
+
+,}
+
+packet
+
+    leftPad {
+match
+
+packetx
+	as // trailing space 
+    Foo
+{ 
 [
-    // c40
-2 // c41a
-  // c41b
-, // c42
-3 // c43a
-  // c43b
+""x y"",	3	] 
+        // " ++ [128512]%N ++ runes_of_ascii " emoji
+: 
+As
+
 ,
-    // c44
-4
-    // c45
-] // c46a
-  // c46b
-: // c47a
-  // c47b
-Logout
-    // c48
-, // c49a
-  // c49b
-100 // c50
-: // c51
-Logon , // c53
-} // c54
-,
-    // c55
-match // c56a
-  // c56b
-Kind2
-    // c57
-as Trailer
-    // c59
-{ // c60
-0 : Logout // c63a
-  // c63b
-, } // c65a
-  // c65b
-, // c66a
-  // c66b
-} // c67a
-  // c67b
-")).
-Eval vm_compute in ("<<<M4364>>>" ++ check (runes_of_ascii "packet int {
-    @tag(7)
-    BodyLength {
-        // @lengthOf(
-        float32 f32a,
-        char[255] u8x @lengthOf(Z9_) `line1
-                line2`,
-        repeat char[65535] tag `" ++ [233]%N ++ runes_of_ascii "`,
-        match Header as int {
-            """ ++ [128512]%N ++ runes_of_ascii """ : body,
-            [
-                00, 4294967296, 255, """ ++ [233]%N ++ runes_of_ascii "t" ++ [233]%N ++ runes_of_ascii """, """ ++ [128512]%N ++ runes_of_ascii """,
-                ""packet""
-            ] : int,
-            [0, ""a	b""] : Z9_,
-            [65535] : tag,
-            /// triple
-            """ ++ [233]%N ++ runes_of_ascii "t" ++ [233]%N ++ runes_of_ascii """ : options1,
-        },
-    },
-    zchar[255] MetaDataX @lengthOf(Z9_) `crlf
-        line`,
-    stringy {
-        repeat string A,// packet A { u8 x, }
-        crc {
-            zchar[1] uint8x,
-        },
-        uint16 Packet @calculatedFrom(""a	b""),
-        len @calculatedFrom(""a	b"") `two words`,
-    },
-    zchar[255] As ``,
-    i16 calculatedFrom,
-    @tag(42)
-    repeat x_y_z `two words`,
-    uint8 lengthOf,
-    @tag(0)
-    u128,
-}")).
-Eval vm_compute in ("<<<M4293>>>" ++ check (runes_of_ascii "MetaData falsey {
-    string tag `// not a comment`,
-}
+    00:
+leftPad 
 
-packet x {
-    char[] int @lengthOf(u) `u8 x,`,
-    @calculatedFrom(""abc"")
-    @leftPad('0')
-    @tag(255)
-    repeat T {
-        f32a `" ++ [233]%N ++ runes_of_ascii "`,
-        u128 @calculatedFrom(""" ++ [128512]%N ++ runes_of_ascii """),
-        // c
-        repeat float {
-            char[] x,
-        },
-    },
-    @lengthOf(Header)
-    string_ @lengthOf(Logon),
-    body Pad `" ++ [28040; 24687; 31867; 22411]%N ++ runes_of_ascii "`,
-}
-
-packet matchKey {
-}
-
+// a // b
 //	t
-packet options1 {
-    string a1 @calculatedFrom(""{,}""),
+    	,
+[ 
+""\n""	,""""
+	] 
+: 
+MetaDataX
+	,
+00
+:
+x
+	""""
+: int,
+    } 
+,
+i32 
+        // " ++ [27880; 37322]%N ++ runes_of_ascii "
+    Foo
+,
+repeat string
+roots 
+,
+
+    repeat
+
+    body 
+chars `" ++ [28040; 24687; 31867; 22411]%N ++ runes_of_ascii "`	,
+
+int
+	`" ++ [233]%N ++ runes_of_ascii "` ,
+@rightPad
+( ' ') string
+	BodyLength  ,
+	@lengthOf( lengthOf 	 // " ++ [128512]%N ++ runes_of_ascii " emoji
+  	)
+	char
+
+    uint8x `line1
+line2`
+
+    , zchar[00]repeatCount @calculatedFrom(
+	""" ++ [28040; 24687]%N ++ runes_of_ascii """ 
+)
+,
+
+    @calculatedFrom( ""a	b""
+) falsey
+//x
+	@calculatedFrom(	""1""  )  `crlf
+line`
+, }//x
+packet
+    Header { 	 // trailing space 
+    @calculatedFrom(
+
+""" ++ [28040; 24687]%N ++ runes_of_ascii """)int64 
+u`crlf
+line` , 
+@calculatedFrom( ""CRC32""
+    ) 	 // packet A { u8 x, }
+  int64	uint8x
+
+    ,	char[
+	255  ] Foo `
+` ,
+}
+")).
+Eval vm_compute in ("<<<M871>>>" ++ check (runes_of_ascii "// `tick` ""quote"" 'q'
+MetaData
+tag{ u8 lengthOf `it's`
+,
+zchar[  3] msg_type , Pad a1`doc`
+    , } packet int { @tag( 42
+    )char[] trueish`line1
+line2`
+    // a // b
+    , int64 A @calculatedFrom( ""// no comment"" )
+`
+`,	@lengthOf( u8x )
+    @leftPad (' '
+    ) @rightPad
+(
+)
+    repeat int64 float ,
+    // a // b
+    char[ 00
+    ] Pad `// not a comment` ,@rightPad (// packet A { u8 x, }
+)
+    float {zchar[
+0	] i8i8,	pack
+    {_x falsey
+, repeat
+    string Packet `two words`
+    ,match
+rootA as matchKey
+    { [ ""it's""	,// `tick` ""quote"" 'q'
+255 ]:Packet  , // packet A { u8 x, }
+""a\\"" : i8i8 , [ ""a	b""//
+,
+    ""CRC32""
+] :
+    crc,
+42 // trailing space 
+:Packet
+007
+: MetaDataX 0: float , } ,	} , i16 Z9_
+@calculatedFrom(
+    ""{,}"")// c
+, string float @lengthOf( roots // c
+) `doc` , }
+    //x
+    , @rightPad //
+( '0' ) u16 f32a
+//	t
+// packet A { u8 x, }
+, } root
+    packet  Header {
+}options	{
+trueish// packet A { u8 x, }
+=char[
+    007 //x
+]
+; asx = '\x00'
+stringy=
+'\x00';  roots	= ' '
+    }packet BodyLength { @leftPad ( // @lengthOf(
+'0' ) f32a @calculatedFrom(
+    // " ++ [27880; 37322]%N ++ runes_of_ascii "
+    ""a\\"" ) `doc` ,repeat a1	{
+msg_type , }
+    , @leftPad
+( '0' ) @calculatedFrom( // `tick` ""quote"" 'q'
+""" ++ [128512]%N ++ runes_of_ascii """ )	@rightPad
+    ()// " ++ [128512]%N ++ runes_of_ascii " emoji
+int32
+    tag@lengthOf( string_ ) `doc`
+    ,	match
+matchKey as
+f32a{ """ ++ [128512]%N ++ runes_of_ascii """:	body,	}	, repeat // " ++ [128512]%N ++ runes_of_ascii " emoji
+u lengthOf ,char[] Foo `` , @lengthOf(	zchar ) Z9_	{ i32 calculatedFrom ,} , @leftPad ( '0' ) @calculatedFrom( ""\n"" )  @lengthOf( body
+) i32 As
+@calculatedFrom(	""CRC32"" ) `u8 x,` , repeat
+float // a // b
+A , a1@lengthOf(
+trueish )
+    //
+    `{ , }` ,
+} 	 ")).
+Eval vm_compute in ("<<<M4394>>>" ++ check (runes_of_ascii "root packet Foo {
+    chars {
+        falsey body,
+        zchar[3] repeatCount `{ , }`,
+    },
+    @lengthOf(BodyLength)
+    i8 Z9_ @lengthOf(trueish),// " ++ [128512]%N ++ runes_of_ascii " emoji
+    @rightPad()
+    repeat Pad {
+        _x @calculatedFrom(""\" ++ [233]%N ++ runes_of_ascii """),
+        match msg_type as uint8x {
+            [1, ""\n"", 0, ""\n""] : Packet,
+            ""CRC32"" : pack,
+        },
+    },
+    @calculatedFrom(""a\""b"")
+    repeat body {
+        char[007] i64_ `
+                `,
+        match charz as pack {
+            65535 : u8x,
+            65535 : zchar,
+            [255] : chars,
+            1 : stringy,
+            [""" ++ [28040; 24687]%N ++ runes_of_ascii """] : int,
+            0 : asx,
+        },
+    },
+    match o as A {
+        007 : calculatedFrom,
+        ""abc"" : roots,
+        ""`tick`"" : Foo,
+        ""it's"" : Foo,
+        007 : float,
+    },
+    @leftPad(' ')
+    // `tick` ""quote"" 'q'
+    // trailing space 
+    repeat repeatCount,
+    char[007] u128 `crlf
+        line`,
+}//
+
+packet asx {
+    charz {
+        rootA @calculatedFrom(""" ++ [233]%N ++ runes_of_ascii "t" ++ [233]%N ++ runes_of_ascii """),
+    },
 }
 
-packet x {
-    match a1 as i64_ {
-        1 : Packet,
-        ""abc"" : crc,
+packet msg_type {
+}
+
+MetaData o {
+    f32 msg_type,
+    int64 body,
+}
+
+root packet body {
+    @tag(1)
+    @calculatedFrom(""`tick`"")
+    @tag(0123456789)
+    metadata {
+        pack i64_,
     },
-    int8 calculatedFrom @lengthOf(i8i8),
-    @calculatedFrom("""")
-    @calculatedFrom(""" ++ [128512]%N ++ runes_of_ascii """)
-    lengthOf `a\`,
-    char[1] u8x,
-    zchar[007] metadata @calculatedFrom(""\n""),
-    @lengthOf(len)
-    @rightPad()
-    char[10] Pad,
-    repeat options1 `{ , }`,
-    char[] tag @lengthOf(Packet),
+    repeat zchar[7] asx,
+    chars @calculatedFrom(""\n""),
+    repeat zchar[4294967296] x,
+    @rightPad('\x00')
+    u8 msg_type `" ++ [233]%N ++ runes_of_ascii "`,
+    float64 pack @lengthOf(MetaDataX),
 }")).
-Eval vm_compute in ("<<<M3625>>>" ++ check (runes_of_ascii "options {
-    LittleEndian = true;
-    StringPrefixLenType = u64;
-    ArrayPrefixLenType = u8;
-    FixedStringPadChar = '0';
+Eval vm_compute in ("<<<M938>>>" ++ check (runes_of_ascii "root packet
+    options1{ repeat u { f64 roots// @lengthOf(
+, },
+    zchar falsey `crlf
+line`// `tick` ""quote"" 'q'
+,
+    match
+u
+    as Foo
+{ 42
+: lengthOf
+    , ""\n"" : crc,
+[
+4294967296 // c
+,// trailing space 
+4294967296
+    , 3 ,
+""\" ++ [233]%N ++ runes_of_ascii """	,
+// " ++ [128512]%N ++ runes_of_ascii " emoji
+//x
+""x y"" ]:	o ,}  ,
+    a1`crlf
+line`, @rightPad(
+// " ++ [128512]%N ++ runes_of_ascii " emoji
+//
+) char[ 0123456789 // " ++ [128512]%N ++ runes_of_ascii " emoji
+] //
+x_y_z  `line1
+line2`
+, @lengthOf(trueish ) i32 A// packet A { u8 x, }
+`u8 x,` ,}
+packet packetx	{ // " ++ [128512]%N ++ runes_of_ascii " emoji
+match	u as
+u8x
+    {// " ++ [27880; 37322]%N ++ runes_of_ascii "
+255 :
+lengthOf	,	[ """ ++ [233]%N ++ runes_of_ascii "t" ++ [233]%N ++ runes_of_ascii """, 7
+    ,00	, // packet A { u8 x, }
+""a\\"", 10 ,0 ,
+    007 ,  3
+    // c
+    ]
+: string_ 0123456789: f32a // " ++ [128512]%N ++ runes_of_ascii " emoji
+,
+}	, // trailing space 
+stringy@calculatedFrom( ""\" ++ [233]%N ++ runes_of_ascii """
+)`line1
+line2`
+    //x
+    , @leftPad
+    (
+) zchar[
+10 ] trueish , // packet A { u8 x, }
+}root packet Logon {
+i64_
+@lengthOf( int )`// not a comment` , @tag(3) match lengthOf as pack
+{
+42 // `tick` ""quote"" 'q'
+:
+    T, 255
+    : int
+    , 007 : tag // " ++ [128512]%N ++ runes_of_ascii " emoji
+,4294967296 : _x, }
+, @calculatedFrom( ""packet"" ) @tag( 10
+// @lengthOf(
+// a // b
+) @tag(65535 )
+zchar[ 65535
+] roots ,
+    @rightPad ( // `tick` ""quote"" 'q'
+' '
+) @tag(
+7)
+    // @lengthOf(
+    string
+Packet @lengthOf(
+    u	)  `tab	here` // trailing space 
+,
+    }
+packet metadata {} root packet x {}
+")).
+Eval vm_compute in ("<<<M4384>>>" ++ check (runes_of_ascii "
+MetaData
+    falsey	{ i8
+Logon
+,// packet A { u8 x, }
+
+len metadata`doc` ,
+
+}MetaData  // " ++ [27880; 37322]%N ++ runes_of_ascii "
+
+  Foo 
+{char[
+    65535]
+    calculatedFrom 
+`
+`  
+      // a // b
+//x
+    , matchKey// c
+      zchar , u
+
+    stringy	`
+`
+
+,
+
+    MetaDataX
+    u
+
+    `say ""hi""`
+    , 	 // c
+		}packet msg_type	{
+@lengthOf(	Z9_
+    ) 
+	    //x
+  	//x
+
+@lengthOf( 
+x
+)
+
+    @tag(	0 
+)  calculatedFrom { 
+msg_type
+
+@calculatedFrom(
+""CRC32""
+)`say ""hi""` ,  repeat
+	matchKey
+	{repeat T
+
+{
+char[ // " ++ [27880; 37322]%N ++ runes_of_ascii "
+  1
+] 
+T  ,repeatCount  `line1
+line2`  ,
+    match 
+int
+as	x
+
+    {
+	""packet""	//x
+	:options1
+,
+    00	:
+
+    calculatedFrom
+00
+
+:
+    falsey,	}	,}
+
+    ,
+char[] uint8x,match
+
+Packet as	falsey
+{
+	7 :	// packet A { u8 x, }
+  f32a , 	 // a // b
+	10
+
+:	u
+    ,  1
+    : Header ,
+[ ""packet""	// " ++ [27880; 37322]%N ++ runes_of_ascii "
+  ,
+    0
+	// " ++ [27880; 37322]%N ++ runes_of_ascii "
+
+// @lengthOf(
+  ,
+
+""a	b"" ]
+
+:
+    o 
+0123456789
+	: chars
+}	,  zchar[
+65535 ]
+    Foo
+,
+	} 
+,
+	}
+, } // packet A { u8 x, }
+		root	packet u	//x
+{ @tag(
+    007) i32 	 // trailing space 
+
+stringy
+@lengthOf(
+
+//
+  a1)
+
+`{ , }`
+,
+    } MetaData
+    string_
+	{uint64
+	chars
+    `crlf
+line`
+    ,char[ // @lengthOf(
+    3]	u8x `a\` ,
+    }")).
+Eval vm_compute in ("<<<M245>>>" ++ check (runes_of_ascii "packet As { @lengthOf( // c
+u8x )
+    repeat u32 T ,
+string Foo@calculatedFrom(
+""it's"" ) `doc`  , @tag(
+// a // b
+// " ++ [27880; 37322]%N ++ runes_of_ascii "
+00) //
+@tag( 42 )	repeatCount { packetx { repeat// @lengthOf(
+f64 x_y_z
+    `doc` //x
+,
+repeat
+    char[65535
+] crc ,} ,
+    u16 A , o @lengthOf( MetaDataX)  `// not a comment`
+    , repeat string  BodyLength `
+`
+    /// triple
+    , }, repeatCount
+@lengthOf( chars)
+,  match //	t
+uint8x
+    as As  {007 :
+Packet """"  : Header 3
+:zchar 7
+// packet A { u8 x, }
+// " ++ [27880; 37322]%N ++ runes_of_ascii "
+:
+u128 , [ 4294967296 ,	""x y"" // " ++ [128512]%N ++ runes_of_ascii " emoji
+]
+:
+crc
+[ ""1"" ,
+    00]:
+//x
+// @lengthOf(
+int ,	}
+,
+@lengthOf( Foo ) repeat // " ++ [128512]%N ++ runes_of_ascii " emoji
+u
+{string float
+// packet A { u8 x, }
+/// triple
+,  string matchKey
+    @calculatedFrom( ""it's"" // " ++ [128512]%N ++ runes_of_ascii " emoji
+)  `it's` ,
+    repeat Packet repeatCount
+    ,
+    }, @lengthOf( T)
+A
+    //x
+    @lengthOf( rootA // c
+) `` ,
+    repeatCount // " ++ [128512]%N ++ runes_of_ascii " emoji
+@calculatedFrom( ""packet"" ) , char[] x
+// `tick` ""quote"" 'q'
+// packet A { u8 x, }
+@calculatedFrom( ""abc"" ) `crlf
+line` , }packet
+i8i8
+// c
+// trailing space 
+{} options{ MetaDataX=true ;//x
+charz	=
+    true ; }
+")).
+Eval vm_compute in ("<<<M582>>>" ++ check (runes_of_ascii "root packet u128
+    {@lengthOf( chars ) repeat u128
+{ repeat	char[
+//	t
+// trailing space 
+007
+// packet A { u8 x, }
+/// triple
+] falsey ,
+zchar[ 00 ]
+crc , uint8x @lengthOf(
+    Logon ) `" ++ [28040; 24687; 31867; 22411]%N ++ runes_of_ascii "`
+,	zchar[ 0123456789]lengthOf @lengthOf( f32a ),} , repeat/// triple
+char[42
+    ] float , int16 u
+/// triple
+// `tick` ""quote"" 'q'
+``
+    , @leftPad (
+)
+    zchar {
+    int8 f32a `u8 x,`,
+    } , @lengthOf(
+msg_type  )
+options1 { string roots@calculatedFrom(""" ++ [233]%N ++ runes_of_ascii "t" ++ [233]%N ++ runes_of_ascii """
+    ) `// not a comment` , }
+, Header Packet , @calculatedFrom( """ ++ [233]%N ++ runes_of_ascii "t" ++ [233]%N ++ runes_of_ascii """)  Z9_ { float {
+    char[]pack @calculatedFrom( ""a\""b"" )
+    `two words` , match Pad as body {
+0123456789 : body ,
+// " ++ [27880; 37322]%N ++ runes_of_ascii "
+// a // b
+[// packet A { u8 x, }
+""it's""	,""x y"" , """ ++ [128512]%N ++ runes_of_ascii """
+// @lengthOf(
+// @lengthOf(
+, 65535 ,""""
+]
+//	t
+// " ++ [128512]%N ++ runes_of_ascii " emoji
+: crc , ""abc""
+    //x
+    : msg_type, // @lengthOf(
+""" ++ [233]%N ++ runes_of_ascii "t" ++ [233]%N ++ runes_of_ascii """ :lengthOf , 3 : Logon ,
+    [  ""a\\"" ] : u128 ,
+// a // b
+/// triple
+} ,
+    } , MetaDataX{ rootA {repeat char[1
+] Pad , }, }
+    ,
+x  ,	}
+//	t
+// a // b
+, repeat// " ++ [128512]%N ++ runes_of_ascii " emoji
+chars , //	t
+u16 As ,}
+")).
+Eval vm_compute in ("<<<M3784>>>" ++ check (runes_of_ascii "options {
+    StringPrefixLenType = u8;
+    ArrayPrefixLenType = u32;
+    FixedStringPadFromLeft = false;
+    FixedStringPadChar = ' ';
+}
+
+packet Party {
+    repeat i16 Qty,
+    repeat string Tail,
+    i8 OrderId,
+    i8 msgKind,
+}
+
+packet Ack {
+    Party,
+    repeat InRef20 {
+        Party,
+        int8 tag7,
+        char[5] OrderId,
+        zchar[7] Tail,
+        char[] count,
+        InPrice45 {
+            Party,
+            char[1] Px,
+        },
+    },
+    char[12] price,
+    int8 sym,
 }
 
 packet Reject {
-    i32 Ref,
-    repeat f64 OrderId,
-    repeat InNote12 {
-        u8 pad0,
+    repeat InPrice47 {
+        Party,
     },
-    @leftPad(' ')
-    char[6] count,
-}
-
-packet Logout {
-    zchar[6] Tail,
-    repeat string venue,
+    zchar[4] x,
+    repeat Ack,
+    zchar[2] Ref,
+    repeat Party,
 }
 
 packet Cancel {
-    u64 count,
-    repeat char[5] lastPx,
-    i64 Tail,
-    repeat InF140 {
-        repeat Logout,
-        repeat Reject,
-    },
+    Reject,
+    repeat string f1,
+    uint16 OrderId,
+    u8 Acct,
+    int8 msgKind,
 }
 
-root packet Trade {
-    repeat InMsgkind39 {
-        repeat Reject,
-        char[4] Px,
+root packet Fill {
+    u8 count,
+    char[] tag7,
+    zchar[7] Acct,
+    u32 OrderId,
+    u32 Note @lengthOf(Body),
+    match OrderId as Body {
+        106 : Cancel,
+        196 : Reject,
+        74 : Party,
+        75 : Ack,
     },
-    string Acct,
-    uint16 price,
-    f32 OrderId,
-    u16 x,
-    u16 clOrdID @lengthOf(Body),
-    match x as Body {
-        178 : Logout,
-        13 : Cancel,
-        174 : Reject,
-    },
-    u16 Flags @calculatedFrom(""CRC32""),
 }")).
-Eval vm_compute in ("<<<M1239>>>" ++ check (runes_of_ascii "
-MetaData
-    //	t
-    zchar { BodyLength rootA , //x
-u8x Z9_
-, zchar[
-    10 ] string_ , char[4294967296]i8i8 ,
-    } root packet
-    u{chars
-    , packetx @calculatedFrom(""" ++ [128512]%N ++ runes_of_ascii """ ) /// triple
-, f32	trueish // packet A { u8 x, }
-`` ,  uint8	Z9_
-    @calculatedFrom(
-    ""abc"" ) `line1
-line2`
-    , repeat MetaDataX { float64 crc`// not a comment` ,zchar[
-    0 ]Z9_ ,
-zchar[
-10 ] string_ ``
-, match
-    pack as
-    a1
-{ //	t
-""a	b""
-: falsey
-// " ++ [128512]%N ++ runes_of_ascii " emoji
-// " ++ [27880; 37322]%N ++ runes_of_ascii "
-, } ,
-// @lengthOf(
-// `tick` ""quote"" 'q'
-} , // " ++ [128512]%N ++ runes_of_ascii " emoji
-repeat
-char
-    As// `tick` ""quote"" 'q'
-, /// triple
-repeat// c
-Z9_// packet A { u8 x, }
-{ string Packet	@calculatedFrom(
-""packet"")
-    , } ,@calculatedFrom( //	t
-""`tick`""
-    ) repeat	i64 f32a `u8 x,` ,  matchKey@lengthOf(BodyLength)`line1
-line2`//x
-,}")).
-Eval vm_compute in ("<<<M423>>>" ++ check (runes_of_ascii "MetaData
-i8i8 {
-A u128  , } /// triple
-packet  tag	{ repeat string_ falsey
-`doc`,repeat Z9_
-{ Header Logon `doc` // packet A { u8 x, }
+Eval vm_compute in ("<<<M1190>>>" ++ check (runes_of_ascii "packet
+    // a // b
+    leftPad{ matchKey crc ,
+@lengthOf( u128
+) repeat char[ 007
+    ]a1 `
+`
 ,
-int16 uint8x// `tick` ""quote"" 'q'
-@lengthOf( body  ) ,
-char[]  lengthOf , },
-@lengthOf( asx )repeat
-matchKey ,  @leftPad ( ' ' ) @rightPad (
-// " ++ [128512]%N ++ runes_of_ascii " emoji
-// " ++ [27880; 37322]%N ++ runes_of_ascii "
-' ' ) Z9_ `{ , }`
-    , char[
-1]
-    len	`{ , }` ,
-} // trailing space 
-options {
-chars  = ""1""	trueish// c
-= // " ++ [27880; 37322]%N ++ runes_of_ascii "
-""a	b""u =
-true ;crc ='0' ;
-} packet
-leftPad { @leftPad( ' ') // packet A { u8 x, }
-zchar	i64_ ,
-match options1
-    as // c
-string_ {
-[ ""a\""b"" , ""packet"" , ""a\\"" , """ ++ [128512]%N ++ runes_of_ascii """ ] : i64_ ,  42/// triple
-:
-Z9_ ,
-    },
-zchar[
-    00 ]trueish , @rightPad // trailing space 
-( ' '  ) packetx options1
-`line1
-line2` , } //")).
-Eval vm_compute in ("<<<M4232>>>" ++ check (runes_of_ascii "MetaData i8i8 {
-    A u128,
-}
-
-/// triple
-packet tag {
-    repeat string_ falsey `doc`,
-    repeat Z9_ {
-        Header Logon `doc`,
-        int16 uint8x @lengthOf(body),
-        char[] lengthOf,
-    },
-    @lengthOf(asx)
-    repeat matchKey,
-    @leftPad(' ')
-    @rightPad(' ')
-    Z9_ `{ , }`,
-    char[1] len `{ , }`,
-}// trailing space 
-
-options {
-    chars = ""1""
-    trueish = ""a	b""
-    u = true;
-    crc = '0';
-}
-
-packet leftPad {
-    @leftPad(' ')
-    // packet A { u8 x, }
-    zchar i64_,
-    match options1 as string_ {
-        [""a\""b"", ""packet"", ""a\\"", """ ++ [128512]%N ++ runes_of_ascii """] : i64_,
-        42 : Z9_,
-    },
-    zchar[00] trueish,
-    @rightPad(' ')
-    packetx options1 `line1
-        line2`,
-}//")).
-Eval vm_compute in ("<<<M710>>>" ++ check (runes_of_ascii "packet
-leftPad { char[
-42  ]falsey , }
-    options{ x_y_z
-= ""a	b"" ; zchar= zchar[ 255]
-    options1 = false ;
-    BodyLength =
-'0'
-    ; i8i8 =char[] ; }packet crc
-{
-char[ 007 // `tick` ""quote"" 'q'
-] stringy @calculatedFrom(""a\""b""
-    )`say ""hi""`
-, match  tag as matchKey{ [ """ ++ [128512]%N ++ runes_of_ascii """ ,
-    3	,// " ++ [27880; 37322]%N ++ runes_of_ascii "
-""" ++ [28040; 24687]%N ++ runes_of_ascii """] :
-    trueish,} , uint32 i64_
-    ,@rightPad (' '
-) @calculatedFrom( ""{,}"" )	@calculatedFrom(
-""a	b"" ) Foo tag `" ++ [233]%N ++ runes_of_ascii "`
-    , repeat zchar[
-    // " ++ [27880; 37322]%N ++ runes_of_ascii "
-    0 ] Logon
-`say ""hi""`
-,i8i8
-u8x ,zchar @calculatedFrom(
-    ""\" ++ [233]%N ++ runes_of_ascii """ ),	} options {_x =
-    false ;
-    Foo =  ""abc"" o
-    = uint32  ; f32a
-= """ ++ [28040; 24687]%N ++ runes_of_ascii """
-charz // " ++ [27880; 37322]%N ++ runes_of_ascii "
-='\x00' ;
-    } MetaData x_y_z
-    {// c
-}")).
-Eval vm_compute in ("<<<M470>>>" ++ check (runes_of_ascii "packet
-Packet {
-asx , // a // b
-falsey
-`" ++ [233]%N ++ runes_of_ascii "`,
-    @lengthOf( a1 ) @lengthOf( uint8x ) @calculatedFrom( ""it's"" )
-    match u128 as msg_type {0123456789 : charz , 1 :int // packet A { u8 x, }
-""" ++ [233]%N ++ runes_of_ascii "t" ++ [233]%N ++ runes_of_ascii """:
-    metadata , [// packet A { u8 x, }
-""a	b"",
-// c
-// packet A { u8 x, }
-""1"" , ""\" ++ [233]%N ++ runes_of_ascii """ , 007,
-42
-    // trailing space 
-    , 3, 65535 ,007 // c
-]  :
-chars ,// trailing space 
-""\" ++ [233]%N ++ runes_of_ascii """	:crc	,}
-// packet A { u8 x, }
-/// triple
-,
-    //x
-    repeat u64 float ,
-zchar[ 10
-] Header
-,crc ,
-@calculatedFrom(""" ++ [233]%N ++ runes_of_ascii "t" ++ [233]%N ++ runes_of_ascii """
-    ) @calculatedFrom(
-""\n"") float32  A @lengthOf( Foo ) , string As
-@lengthOf( body), u64 asx
-, uint32
-tag // c
-, }
-")).
-Eval vm_compute in ("<<<M3975>>>" ++ check (runes_of_ascii "
-// top
-	packet 
-        // c0
-    trueish 
-    // c1
-
-  {
-// c2
-  repeat
-
-// c3
-u32
-    // c4
-  	MetaDataX
-// c5
-      `doc`
-
-// c6
-	,
-        // c7
-  Header 
-    // c8
-    { 
-  // c9
-  	packetx  
-  // c10
-
-o 
-        // c11
-    `u8 x,`
-	    // c12
-  , 
-    // c13
-  } 
-
-    // c14
-,
-
-    // c15
-    @leftPad
-// c16
-
-(
-	    // c17
-    '\x00'
-        // c18
+repeat// " ++ [128512]%N ++ runes_of_ascii " emoji
+Z9_ _x ,@tag(
+42	)@lengthOf( body)@lengthOf( uint8x
     )
-    // c19
-
-repeat 
-    // c20
-  char[
-
-// c21
-  0123456789
-    // c22
-    ]
-        // c23
-	repeatCount 
-    // c24
-	  ,
-    // c25
-  }
-	// c26
-  packet 
-        // c27
-  Packet 
-
-// c28
-  	{
-// c29
-
-	}
-// c30
- 
-")).
-Eval vm_compute in ("<<<M533>>>" ++ check (runes_of_ascii "packet asx {@calculatedFrom( ""`tick`""	)match crc as x {
-    3:x_y_z ,	""it's""
-    // trailing space 
-    : msg_type , [ 1 , /// triple
-10 , // " ++ [128512]%N ++ runes_of_ascii " emoji
-""abc""
-,
-0// a // b
-] :
-u } , @tag(65535	)
-packetx `two words`, }root packet rootA{chars @lengthOf(leftPad// " ++ [27880; 37322]%N ++ runes_of_ascii "
-)
-    /// triple
-    , @calculatedFrom(""a\\"") match crc as leftPad// `tick` ""quote"" 'q'
-{
-    [
+repeat
+As{matchKey , lengthOf@calculatedFrom(
+    // packet A { u8 x, }
+    ""it's""
+    ) , repeat zchar[
 255
-,""a	b""
-]	:falsey,
-    00 : a1	,
-7
-/// triple
-/// triple
-: Z9_ , 00 : a1
-, } , match packetx as Pad	{	[
-""// no comment""]:
-len,
-} ,
-    }packet zchar { @calculatedFrom(""\n""
-)string Logon,
-}")).
-Eval vm_compute in ("<<<M194>>>" ++ check (runes_of_ascii "// " ++ [128512]%N ++ runes_of_ascii " emoji
-packet// @lengthOf(
-int { match zchar
-as _x {	[ 4294967296 ]
-    :
-x_y_z ,[
-""a\""b"" // @lengthOf(
-]  :chars ,
-    [
-    ""it's"" , ""\" ++ [233]%N ++ runes_of_ascii """ , ""packet""
-    ,""{,}"" ] :
-f32a
-}, x { repeat asx{ zchar[  0123456789
-]crc `crlf
-line`, msg_type	i8i8`crlf
-line` ,
-    uint16
-rootA @calculatedFrom( ""a\\"" )
-    // @lengthOf(
-    , Logon x_y_z
-`" ++ [233]%N ++ runes_of_ascii "` , },
-} , } packet
-u{ match
-    pack as trueish //x
-{ ""1"" : len """ ++ [128512]%N ++ runes_of_ascii """ : leftPad ,4294967296 // @lengthOf(
-:	metadata
-, }
-    ,int T  `line1
-line2` ,f32 Logon
-    , } options {
-    }
-")).
-Eval vm_compute in ("<<<M3284>>>" ++ check (runes_of_ascii "// top
-packet
-    // c0
-trueish
-    // c1
-{
-    // c2
-repeat
-    // c3
-u32
-    // c4
-MetaDataX
-    // c5
-`doc`
-    // c6
-,
-    // c7
-Header
-    // c8
-{
-    // c9
-packetx
-    // c10
-o
-    // c11
-`u8 x,`
-    // c12
-,
-    // c13
-}
-    // c14
-,
-    // c15
-@leftPad
-    // c16
-(
-    // c17
-'\x00'
-    // c18
-)
-    // c19
-repeat
-    // c20
-char[
-    // c21
-0123456789
-    // c22
 ]
-    // c23
-repeatCount
-    // c24
+body
+, char[] u
+    @lengthOf( A )
+    , }, @leftPad(
+    '0'
+    ) string body // @lengthOf(
+`// not a comment` , }packet x_y_z  { } root packet
+T{repeat char[ 3] Logon
+    // trailing space 
+    , //x
+float	@lengthOf(
+    roots)
+`{ , }` ,_x T // " ++ [128512]%N ++ runes_of_ascii " emoji
+`` , }packet Pad {
+@calculatedFrom(""packet"") u16 repeatCount @calculatedFrom( """ ++ [233]%N ++ runes_of_ascii "t" ++ [233]%N ++ runes_of_ascii """ )`// not a comment`
 ,
-    // c25
-}
-    // c26
-packet
-    // c27
-Packet
-    // c28
-{
-    // c29
-}
-    // c30
-")).
-Eval vm_compute in ("<<<M899>>>" ++ check (runes_of_ascii "packet u8x
-    { @lengthOf( trueish )
+@tag( 3 )
+    zchar[ 4294967296
+]	repeatCount
+    ,
+    } MetaData body {// packet A { u8 x, }
+u32
+matchKey , T
+repeatCount // " ++ [128512]%N ++ runes_of_ascii " emoji
+`
+` , char[ // c
+007
+    // trailing space 
+    ]
+tag, i8i8 // " ++ [128512]%N ++ runes_of_ascii " emoji
+asx, int u8x
+, int32
+Logon	`say ""hi""` // " ++ [128512]%N ++ runes_of_ascii " emoji
+, }")).
+Eval vm_compute in ("<<<M1245>>>" ++ check (runes_of_ascii "MetaData As {
+    roots repeatCount	, char // `tick` ""quote"" 'q'
+trueish , zchar[
+255	]  u128  `crlf
+line` , char[]  int,asx u128
+    `say ""hi""`,	i32
+    packetx
+,}
+options {A
+    = false;packetx =char[0 ]	A
+    =
+true
+crc = // " ++ [128512]%N ++ runes_of_ascii " emoji
+1 ;
+calculatedFrom  = // @lengthOf(
+""" ++ [233]%N ++ runes_of_ascii "t" ++ [233]%N ++ runes_of_ascii """} MetaData i8i8 { }
+    packet len {
+    @tag(00 )// packet A { u8 x, }
+uint64 stringy	@lengthOf( x_y_z) , } packet rootA
+{ // trailing space 
+@lengthOf( zchar ) char
+_x@lengthOf( x_y_z) ,//	t
+string_ @calculatedFrom(""" ++ [233]%N ++ runes_of_ascii "t" ++ [233]%N ++ runes_of_ascii """ ) /// triple
+, // " ++ [128512]%N ++ runes_of_ascii " emoji
+@lengthOf( A
+    // " ++ [128512]%N ++ runes_of_ascii " emoji
+    ) x_y_z //x
+{ Pad
+    , match
+trueish as u8x {
+    4294967296 : u
 // trailing space 
 /// triple
-@lengthOf( matchKey ) repeat
-Packet{ packetx @calculatedFrom(
-    ""a\""b"" )  `` ,
-}  ,@calculatedFrom(
-""1"" ) f32
-o
-    ,char[ // a // b
-0123456789 // `tick` ""quote"" 'q'
-] crc
-,char[]charz
-    ,rootA
-A
-    ,repeat char[]  _x,
-@calculatedFrom(""{,}""
-)
-leftPad , char[ 65535 ] rootA// c
-,//	t
-@lengthOf( charz // c
-)@lengthOf(u8x
-) @lengthOf(float
-    )
-repeat zchar[// trailing space 
-0123456789 ] u8x ,	}
+, 3
+:
+int 00 : //	t
+u8x
+    // trailing space 
+    , [
+// packet A { u8 x, }
+// `tick` ""quote"" 'q'
+""{,}""
+, ""a	b"" //	t
+,
+0 ,3
+,0123456789
+, ""a\""b"" ]
+:body ,
+    65535 :
+T
+    , } , }
+    , i32 chars , }")).
+Eval vm_compute in ("<<<M451>>>" ++ check (runes_of_ascii "// packet A { u8 x, }
+MetaData f32a{ int64 i8i8
+, u64
+Packet
+    `` ,  falsey// @lengthOf(
+_x
+    ,// trailing space 
+tag roots``,uint32 // packet A { u8 x, }
+Foo `two words`
+,
+char[]asx ,
+}packet options1 {
+    char[  00
+]
+    u128,
+//x
+// a // b
+@calculatedFrom( ""`tick`"" )
+Header @calculatedFrom(  ""1""	) ,
+@leftPad ( ) match// " ++ [128512]%N ++ runes_of_ascii " emoji
+u// `tick` ""quote"" 'q'
+as
+    o {
+[ ""a\\""
+    // trailing space 
+    ] :
+// packet A { u8 x, }
+// " ++ [128512]%N ++ runes_of_ascii " emoji
+stringy	""abc""// packet A { u8 x, }
+:	f32a
+,
+} ,	f64 x_y_z
+@lengthOf( o )  ,	repeat
+    char[  00	] //x
+int
+`
+` , char[]options1 `{ , }`
+,// `tick` ""quote"" 'q'
+zchar[ // c
+00 ]	charz// a // b
+,
+    char[]
+    MetaDataX `a\`
+    ,
+match packetx	as zchar { [10 , 1 ] :
+    i8i8 , ""CRC32""
+:
+// `tick` ""quote"" 'q'
+//	t
+Logon
+// `tick` ""quote"" 'q'
+// @lengthOf(
+, } , }
+//	t
 ")).
+Eval vm_compute in ("<<<M514>>>" ++ check (runes_of_ascii "root packet As { @tag(
+    4294967296 )
+packetx // packet A { u8 x, }
+, @calculatedFrom(
+""" ++ [128512]%N ++ runes_of_ascii """ )i32 crc // " ++ [128512]%N ++ runes_of_ascii " emoji
+, @lengthOf( x_y_z )@lengthOf(
+    // a // b
+    body
+// a // b
+// c
+) BodyLength {
+match repeatCount
+    as int
+    { ""\" ++ [233]%N ++ runes_of_ascii """:body , // packet A { u8 x, }
+""// no comment""  : falsey
+,""abc"" :
+tag ""a	b"":zchar,
+    // trailing space 
+    007 : Packet ,}	, // " ++ [128512]%N ++ runes_of_ascii " emoji
+} , repeat falsey trueish
+    ,
+@leftPad(
+    ' '
+)
+@lengthOf(// packet A { u8 x, }
+Logon )
+@leftPad ( )int@lengthOf( u8x ), zchar[
+// " ++ [27880; 37322]%N ++ runes_of_ascii "
+// packet A { u8 x, }
+007 ]falsey ,
+    @rightPad
+() float @lengthOf( Logon ) , @rightPad( '\x00' ) @calculatedFrom( /// triple
+""a	b"" )Z9_ u8x, @tag( 3 ) string_ u128, }options  {
+u128 = ""it's"" ;
+metadata =  ""abc""string_
+    =
+    true	;f32a= // c
+true }
+packet i8i8{
+}
+")).
+Eval vm_compute in ("<<<M1343>>>" ++ check (runes_of_ascii "MetaData
+    int	{ zchar[  3 ] matchKey ,  zchar[ //	t
+3]
+    Pad, zchar tag
+    ,
+    f64  Z9_`u8 x,`
+, char[ 255 ] f32a ,	} packet
+string_{ @tag(
+    // @lengthOf(
+    42) match metadata as uint8x {
+    ""1"" : x_y_z [ ""\n""
+// c
+//
+]
+:chars ,} //
+,	lengthOf// " ++ [27880; 37322]%N ++ runes_of_ascii "
+{
+    repeat
+i64 pack , repeat
+zchar[ 42
+] body ,//	t
+match metadata
+// `tick` ""quote"" 'q'
+// trailing space 
+as Pad
+{
+1:u8x , [
+    ""packet"" ] : Logon  , ""{,}"" : Header ""1"":// " ++ [128512]%N ++ runes_of_ascii " emoji
+o ,""" ++ [233]%N ++ runes_of_ascii "t" ++ [233]%N ++ runes_of_ascii """ : leftPad ,
+    """ ++ [233]%N ++ runes_of_ascii "t" ++ [233]%N ++ runes_of_ascii """ :
+    As, }
+    , }
+    , @tag( 65535
+)
+repeat// trailing space 
+uint8 chars
+,@tag(	3 ) @rightPad /// triple
+( ' ' ) @leftPad
+    ( ' ') u64 stringy
+//	t
+// @lengthOf(
+, @rightPad
+    ( ' ' ) repeat Header `line1
+line2` ,
+@rightPad( ' '
+)repeat string charz , } 	 ")).
+Eval vm_compute in ("<<<M1011>>>" ++ check (runes_of_ascii "root	packet
+_x { falsey, } packet BodyLength
+{
+    /// triple
+    float32 u ,@calculatedFrom( ""a\\""  ) roots @lengthOf(
+x_y_z) , options1 Pad
+`u8 x,`,
+@tag(
+0 )
+    char[ 1
+]T
+    , }  packet u128 { repeat
+u8
+// " ++ [128512]%N ++ runes_of_ascii " emoji
+//
+x, match
+    u8x as //	t
+u8x
+{
+    """" : float[
+0123456789 ] : pack , }
+,
+// `tick` ""quote"" 'q'
+// " ++ [27880; 37322]%N ++ runes_of_ascii "
+repeat
+float32 lengthOf, // packet A { u8 x, }
+}packet
+    //
+    Header { match	len // " ++ [27880; 37322]%N ++ runes_of_ascii "
+as	Foo
+    { [
+    42 , 4294967296	,
+    ""a	b"" ] :int 0  : u128 , [ ""\n"" ,
+    42 ]: Foo , 3 :  float
+,[ ""a\\"" ,	""`tick`""// " ++ [27880; 37322]%N ++ runes_of_ascii "
+, // packet A { u8 x, }
+""// no comment"", 7, 3	] : x
+, [ 65535 , ""a\\""
+    // packet A { u8 x, }
+    ,	""a\\"" , ""it's""
+    , """ ++ [28040; 24687]%N ++ runes_of_ascii """ , ""a\""b"" , ""{,}""]
+    : msg_type , } ,
+}
+")).
+Eval vm_compute in ("<<<M3597>>>" ++ check (runes_of_ascii "// top
+  packet
+
+// c0
+    	Sub	{u8
+// c3
+      a 	 // c4a
+  // c4b
+		, 
+    // c5
+@calculatedFrom( 	 // c6
+		""CRC16""	// c7
+  	) 	 // c8a
+// c8b
+	i16 	 // c9a
+  // c9b
+  SubSum 
+      // c10
+
+  ,	} 	 // c12
+root  packet
+    // c14
+	Frame	{ 	 // c16a
+    // c16b
+	u16	// c17a
+      // c17b
+    	MsgType, u16 
+
+    // c20
+BodyLen	@lengthOf(
+    // c22
+  Body // c23a
+	// c23b
+    	)	// c24a
+    // c24b
+	,
+Sub// c26a
+  // c26b
+	Body  // c27
+  ,
+	    // c28
+	  string 
+note 	 // c30
+  	,@calculatedFrom(// c32
+  ""CRC16""  // c33
+		)  // c34a
+  // c34b
+	  i16  // c35a
+    // c35b
+
+Checksum  // c36a
+	  // c36b
+, u8
+
+    tail // c39
+    	, // c40
+	} // c41a
+// c41b
+ 
+")).
+Eval vm_compute in ("<<<M28>>>" ++ check (runes_of_ascii "root
+// c
+// packet A { u8 x, }
+packet
+    // packet A { u8 x, }
+    f32a {@rightPad ()// packet A { u8 x, }
+options1 ,uint64
+    MetaDataX ,
+x_y_z `two words` ,
+// packet A { u8 x, }
+// trailing space 
+i8i8
+    `" ++ [28040; 24687; 31867; 22411]%N ++ runes_of_ascii "` ,int16 f32a@lengthOf( zchar	) ,}
+//x
+//x
+root
+    packet u8x { @rightPad	(
+' ' ) repeat a1
+    { repeat string_ stringy  ,
+    } , stringy// `tick` ""quote"" 'q'
+a1
+`// not a comment` ,
+@tag(	4294967296 ) float64 o, @lengthOf(a1 )
+repeat string_ {
+    // `tick` ""quote"" 'q'
+    match BodyLength// trailing space 
+as int {65535:u
+, } , pack
+    options1`a\` ,
+repeat lengthOf	matchKey , }
+    , repeat
+char[65535 ] BodyLength
+    , }
+")).
+Eval vm_compute in ("<<<M4189>>>" ++ check (runes_of_ascii "options  // c
+    	{ msg_type
+	=	//	t
+
+1  ;
+// a // b
+      _x
+= 
+// packet A { u8 x, }
+  char[]
+    ;  // a // b
+pack= ' ';}
+	MetaData
+    i8i8
+
+    {  i8i8	// " ++ [27880; 37322]%N ++ runes_of_ascii "
+
+roots
+    ,
+    options1 
+    // " ++ [27880; 37322]%N ++ runes_of_ascii "
+lengthOf
+, 
+_x
+Z9_`// not a comment`
+,	x
+    i8i8`{ , }`	,
+leftPad
+BodyLength 
+/// triple
+  ,	}
+root packet 
+tag
+
+    {
+
+zchar[ 4294967296 ] 
+// packet A { u8 x, }
+  /// triple
+
+  Z9_
+
+@calculatedFrom( ""abc""  ) 
+`" ++ [28040; 24687; 31867; 22411]%N ++ runes_of_ascii "` , 
+char
+
+    BodyLength @calculatedFrom( 
+""\n"" )
+	`// not a comment`
+,
+@leftPad 	 // c
+    (
+' ' 	 // c
+	)
+	@rightPad(  )repeat MetaDataX
+	u `" ++ [233]%N ++ runes_of_ascii "`  , }	MetaData tag
+
+    { u64
+
+x_y_z
+	`
+`  ,
+
+} ")).
+Eval vm_compute in ("<<<M4516>>>" ++ check (runes_of_ascii "
+// top
+		MetaData  // c0
+
+x_y_z 	 // c1
+{// c2
+  char 	 // c3
+
+  body	// c4
+,	// c5
+  f64	// c6
+    	i8i8 // c7
+		`two words`// c8
+,// c9
+    body // c10
+  body  // c11
+  `" ++ [28040; 24687; 31867; 22411]%N ++ runes_of_ascii "` 	 // c12
+    , // c13
+  }  // c14
+
+root	// c15
+    	packet// c16
+		chars  // c17
+
+{ 	 // c18
+
+@lengthOf(// c19
+    	i64_ 	 // c20
+  ) // c21
+
+	chars // c22
+,  // c23
+  i8i8 // c24
+
+	{ // c25
+	falsey // c26
+  @lengthOf(// c27
+  stringy	// c28
+)  // c29
+    `doc`  // c30
+  , // c31
+}	// c32
+    ,// c33
+  	x	// c34
+      @lengthOf(// c35
+    A 	 // c36
+	)  // c37
+
+`crlf
+line` // c38
+  ,  // c39
+    } // c40
+")).
+Eval vm_compute in ("<<<M4069>>>" ++ check (runes_of_ascii "packet T {
+    @calculatedFrom(""\" ++ [233]%N ++ runes_of_ascii """)
+    string f32a,
+    repeat f32 falsey,/// triple
+    @leftPad('0')
+    match repeatCount as repeatCount {
+        ""a	b"" : body,
+    },
+    x_y_z @lengthOf(trueish),
+    f64 crc,
+    @calculatedFrom(""x y"")
+    @tag(0)
+    @tag(65535)
+    int16 u128 @lengthOf(string_) `" ++ [233]%N ++ runes_of_ascii "`,
+    @calculatedFrom(""\n"")
+    char[0123456789] Foo @calculatedFrom(""CRC32""),
+    @calculatedFrom(""a\\"")
+    match T as msg_type {
+        [65535, ""x y"", 3, 255, 0] : T,
+        [""CRC32"", ""1"", 3, 10, 65535] : u,
+        4294967296 : a1,
+    },
+}")).
+Eval vm_compute in ("<<<M1216>>>" ++ check (runes_of_ascii "// c
+options {} packet // `tick` ""quote"" 'q'
+msg_type
+    {
+    T @calculatedFrom( ""it's"" ) , @tag( 00
+    //
+    )  match rootA
+    as
+// a // b
+// `tick` ""quote"" 'q'
+charz{ 255 : roots [ ""1"", 7
+    , 00 ] : x }
+    , zchar[  007
+    // c
+    ]  u @calculatedFrom(
+// trailing space 
+//x
+""" ++ [28040; 24687]%N ++ runes_of_ascii """)  ,	match repeatCount as Pad
+    {[ /// triple
+""packet""
+, 1 ,4294967296,""1"" , ""x y""
+    , 42 ] :
+metadata ,
+    [	3 ,65535 ,
+    """",
+007, """ ++ [233]%N ++ runes_of_ascii "t" ++ [233]%N ++ runes_of_ascii """ ,
+    """ ++ [28040; 24687]%N ++ runes_of_ascii """, // c
+""CRC32""
+    // " ++ [128512]%N ++ runes_of_ascii " emoji
+    ]
+    :
+    pack
+""\" ++ [233]%N ++ runes_of_ascii """
+: Packet }, }
+
+")).
+Eval vm_compute in ("<<<M3790>>>" ++ check (runes_of_ascii "packet Logon {
+    @calculatedFrom(""a	b"")
+    repeat options1,
+    @calculatedFrom(""a\\"")
+    // c
+    char[] options1 `it's`,
+    @tag(4294967296)
+    repeat Logon {
+        match trueish as u128 {
+            ""x y"" : i64_,
+            [4294967296, 007, 10] : i8i8,
+        },
+        //
+        // @lengthOf(
+        T `u8 x,`,
+        repeat uint64 T `u8 x,`,
+    },
+}
+
+options {
+    u128 = '0'
+    tag = true;
+    Packet = char[0123456789];
+    Foo = 007
+    body = 3;
+}
+
+packet i64_ {
+}
+//x")).
+Eval vm_compute in ("<<<M816>>>" ++ check (runes_of_ascii "options {
+Packet=
+false ; BodyLength=
+007
+    //	t
+    rootA =
+char[	255 ] ; uint8x= true;
+// trailing space 
+//	t
+}
+    packet msg_type { @calculatedFrom(""a\""b"" ) @leftPad ( ) repeat
+    char[]
+rootA, char[	7 ]
+    // a // b
+    Packet
+, @leftPad ( ' ' )
+    u64
+metadata @calculatedFrom( ""x y"") ,
+@tag( 42 )match lengthOf as f32a{
+[ ""// no comment"" ,""\" ++ [233]%N ++ runes_of_ascii """ ,42 , ""\n""]:	metadata,
+// packet A { u8 x, }
+//
+4294967296
+:
+trueish ,
+007:
+rootA ,
+007 :	float  """"  : body, }, }")).
 Eval vm_compute in ("<<<M1050>>>" ++ check (runes_of_ascii "root packet roots
     { }
     packet
@@ -1236,995 +1412,1152 @@ leftPad `{ , }` , string
     i64_ `say ""hi""` , int32 BodyLength `a\`
 ,	}
 ")).
-Eval vm_compute in ("<<<M382>>>" ++ check (runes_of_ascii "packet x { i64_ , } options // c
-{
-Logon =true
-//	t
-//	t
-} MetaData //x
-f32a { zchar[
-0123456789] string_ , i8i8 // @lengthOf(
-falsey ,
-u8x	string_ , zchar repeatCount `doc`, float64 zchar ,	} root
-    // c
-    packet
-Z9_ {	a1
-options1
-`u8 x,`	, char// `tick` ""quote"" 'q'
-BodyLength `// not a comment`
-    , @lengthOf( metadata )	repeat u`line1
-line2`  ,	@lengthOf(options1
-    ) @lengthOf( zchar )  @calculatedFrom( """ ++ [233]%N ++ runes_of_ascii "t" ++ [233]%N ++ runes_of_ascii """	)x
-u128
-,}
+Eval vm_compute in ("<<<M30>>>" ++ check (runes_of_ascii "packet  chars { zchar[ 10
+    ]x
+@lengthOf( repeatCount )
+    ,
+repeat
+    metadata{
+string int ,repeat
+matchKey //x
+, match leftPad as o { 0 : matchKey
+    // " ++ [27880; 37322]%N ++ runes_of_ascii "
+    ,
+[ 0 ]
+: float 0 : packetx// " ++ [128512]%N ++ runes_of_ascii " emoji
+255 :i64_
+    ,//	t
+[0 , 007 , ""a\\"" ,
+    //	t
+    """ ++ [128512]%N ++ runes_of_ascii """
+    ,
+65535  , 255 ]
+:
+charz ,	255 : u,	} , },  @rightPad( ' ' )
+// packet A { u8 x, }
+// " ++ [128512]%N ++ runes_of_ascii " emoji
+@tag( 255
+) // c
+@rightPad
+(	' ' ) u16 falsey,}options
+    { f32a
+= """ ++ [128512]%N ++ runes_of_ascii """ ;	}
 ")).
-Eval vm_compute in ("<<<M4354>>>" ++ check (runes_of_ascii "packet x {
-    repeat float32 Foo `{ , }`,
-    float64 i8i8,
-    @lengthOf(chars)
-    @tag(65535)
-    // @lengthOf(
-    string_,
-    @leftPad('0')
-    repeat A charz,
+Eval vm_compute in ("<<<M4380>>>" ++ check (runes_of_ascii "packet Pad {
+    i16 A @calculatedFrom(""a\""b""),
 }
 
-root packet Header {
-    @calculatedFrom(""// no comment"")
-    repeat metadata {
-        repeat u64 o,
-        T ``,
+packet roots {
+    @tag(65535)
+    repeat f32a {
+        char[00] a1 @calculatedFrom(""a\\""),
+        float32 x_y_z,
+        len {
+            // `tick` ""quote"" 'q'
+            // c
+            stringy u8x `
+            `,
+        },
+        f32 Foo @calculatedFrom(""a\""b""),
     },
+    @calculatedFrom(""1"")
+    u64 calculatedFrom,
+    u32 u8x,
+    u32 calculatedFrom ``,
+}")).
+Eval vm_compute in ("<<<M720>>>" ++ check (runes_of_ascii "packet crc{ @tag(
+255 )	u64	int//x
+,	As len , stringy @lengthOf( A// `tick` ""quote"" 'q'
+) `line1
+line2` ,
+    match
+// a // b
+// " ++ [27880; 37322]%N ++ runes_of_ascii "
+a1
+as  o{ """" :	Header , ""packet""// a // b
+: i8i8  ,	""" ++ [128512]%N ++ runes_of_ascii """ : body ,
+[ ""`tick`"" ]: // trailing space 
+i64_
+, ""CRC32"" :BodyLength
+    // c
+    ""{,}"": _x ,}
+    ,	o, @tag(
+42 // " ++ [27880; 37322]%N ++ runes_of_ascii "
+) packetx
+{ zchar[ 00 ]
+// c
+// packet A { u8 x, }
+stringy
+    ,
+    } ,
+    // " ++ [128512]%N ++ runes_of_ascii " emoji
+    } 	 ")).
+Eval vm_compute in ("<<<M367>>>" ++ check (runes_of_ascii "packet	T  {
+/// triple
+// @lengthOf(
+@tag( 007 )
+T
+    @calculatedFrom( ""CRC32"")
+//	t
+//
+, @tag( // " ++ [27880; 37322]%N ++ runes_of_ascii "
+65535	) repeat
+    tag { a1 @calculatedFrom( ""a\""b"" )	, }
+,
+As
+    {
+    char[ //	t
+007 ] lengthOf , char[]x @lengthOf(crc )`` ,  repeat
+i8
+    matchKey , tag Z9_ , } ,repeat
+// c
+/// triple
+uint64
+zchar
+    // packet A { u8 x, }
+    `doc` ,	@tag(255
+)repeat zchar[ 7 ]lengthOf
+, }")).
+Eval vm_compute in ("<<<M991>>>" ++ check (runes_of_ascii "packet // packet A { u8 x, }
+Pad { repeat u8 f32a ,
+string_ { char[ 42 ] // a // b
+As
+    , repeat uint16 asx , repeat
+    zchar[ 65535 ]
+    a1
+    , }
+, }
+// trailing space 
+// @lengthOf(
+MetaData
+    rootA { }MetaData _x {
+    char[]
+body ,
+f64 // c
+len ,rootA
+uint8x
+    `
+` ,
+    float f32a , }options{  metadata = char ;
+    //x
+    msg_type = zchar[ 0 ] ;}
+// " ++ [27880; 37322]%N ++ runes_of_ascii "
+")).
+Eval vm_compute in ("<<<M1014>>>" ++ check (runes_of_ascii "// c
+MetaData
+    asx {i64_ f32a /// triple
+,
+stringy	pack
+`` , }MetaData  repeatCount
+//x
+// " ++ [27880; 37322]%N ++ runes_of_ascii "
+{ } options { // `tick` ""quote"" 'q'
+x=7// @lengthOf(
+; Foo
+    //
+    = 42 x = u64 ;/// triple
+x_y_z
+= u16 u8x =// c
+' ' }
+    //x
+    packet len	{
+    @lengthOf(
+    metadata ) @tag( 00 )
+@calculatedFrom( """ ++ [233]%N ++ runes_of_ascii "t" ++ [233]%N ++ runes_of_ascii """ ) len , } MetaData repeatCount { A Z9_,
+} // c")).
+Eval vm_compute in ("<<<M836>>>" ++ check (runes_of_ascii "packet trueish {
+    // trailing space 
+    zchar[
+0
+] o
+@lengthOf( float	), @tag(
+    10
+    )stringy {
+zchar[ 65535  ]
+matchKey
+    ,	}
+    ,
+    @lengthOf(
+//
+//	t
+asx )zchar[
+    10 ] string_
+@calculatedFrom("""" ) `it's`	,
+}options {	rootA //x
+=
+// a // b
+// trailing space 
+""1""
+; }
+    options
+    { body = u32 repeatCount= '\x00' }
+")).
+Eval vm_compute in ("<<<M1172>>>" ++ check (runes_of_ascii "packet
+stringy { @lengthOf(
+Packet ) lengthOf @calculatedFrom(""it's"" ) ,  } MetaData x_y_z{ asx rootA `it's` ,
+float32 // " ++ [128512]%N ++ runes_of_ascii " emoji
+trueish
+//x
+// packet A { u8 x, }
+, o Packet , } options {leftPad =true ; len	= 7 //x
+; Pad
+//	t
+// c
+= 42
+    //x
+    ; chars
+    = 65535 ;A =
+    4294967296} MetaData int
+    /// triple
+    { }")).
+Eval vm_compute in ("<<<M733>>>" ++ check (runes_of_ascii "packet // a // b
+zchar {
+    char[] trueish @calculatedFrom(
+""CRC32""// `tick` ""quote"" 'q'
+), char[]
+    /// triple
+    MetaDataX
+, u8x @lengthOf(leftPad ) `
+`
+/// triple
+// c
+, @leftPad (  '\x00' )u32 u8x
+,} root packet metadata
+{ repeat As , // c
+uint64 trueish , x `two words`,}
+options {metadata =  '0' ; }
+")).
+Eval vm_compute in ("<<<M3286>>>" ++ check (runes_of_ascii "// top
+packet // c0
+u128 // c1
+{ // c2
+@lengthOf( // c3
+body // c4
+) // c5
+match // c6
+x_y_z // c7
+as // c8
+u // c9
+{ // c10
+""x y"" // c11
+: // c12
+i8i8 // c13
+, // c14
+} // c15
+, // c16
+@tag( // c17
+255 // c18
+) // c19
+char[] // c20
+roots // c21
+@lengthOf( // c22
+int // c23
+) // c24
+, // c25
+} // c26
+")).
+Eval vm_compute in ("<<<M1611>>>" ++ check (runes_of_ascii "root packet Foo // " ++ [128512]%N ++ runes_of_ascii " emoji
+{ } options {
+    // a // b
+    tag // `tick` ""quote"" 'q'
+= //	t
+""""
+    ; u8x = zchar[0  ] }
+MetaData
+    int {zchar[ 10]
+lengthO@tagf	`` , i64 u8x`// not a comment` ,MetaDataX pack// `tick` ""quote"" 'q'
+`crlf
+line`
+, Logon charz `crlf
+line`
+    ,
+    // a // b
+    }
+")).
+Eval vm_compute in ("<<<M1547>>>" ++ check (runes_of_ascii "root packet Foo // " ++ [128512]%N ++ runes_of_ascii " emoji
+{ } options {
+    // a // b
+    tag // `tick` ""quote"" 'q'
+= //	t
+""""
+    ; u8x = zchar[0  ] }
+MetaData
+    int {zchar[ 10]
+lengthOf	`` , i64 65535`// not a comment` ,MetaDataX pack// `tick` ""quote"" 'q'
+`crlf
+line`
+, Logon charz `crlf
+line`
+    ,
+    // a // b
+    }
+")).
+Eval vm_compute in ("<<<M1431>>>" ++ check (runes_of_ascii "root packet Foo // " ++ [128512]%N ++ runes_of_ascii " emoji
+{ options } {
+    // a // b
+    tag // `tick` ""quote"" 'q'
+= //	t
+""""
+    ; u8x = zchar[0  ] }
+MetaData
+    int {zchar[ 10]
+lengthOf	`` , i64 u8x`// not a comment` ,MetaDataX pack// `tick` ""quote"" 'q'
+`crlf
+line`
+, Logon charz `crlf
+line`
+    ,
+    // a // b
+    }
+")).
+Eval vm_compute in ("<<<M1591>>>" ++ check (runes_of_ascii "root packet Foo // " ++ [128512]%N ++ runes_of_ascii " emoji
+{ } options {
+    // a // b
+    tag // `tick` ""quote"" 'q'
+= //	t
+""""
+    ; u8x = zchar[0  ] }
+MetaData
+    int {zchar[ 10]
+lengthOf	`` , i64 u8x`// not a comment` ,MetaDataX pack// `tick` ""quote"" 'q'
+`crlf
+line`
+, Logon charz ,
+    `crlf
+line`
+    // a // b
+    }
+")).
+Eval vm_compute in ("<<<M1512>>>" ++ check (runes_of_ascii "root packet Foo // " ++ [128512]%N ++ runes_of_ascii " emoji
+{ } options {
+    // a // b
+    tag // `tick` ""quote"" 'q'
+= //	t
+""""
+    ; u8x = zchar[0  ] }
+MetaData
+    int {true 10]
+lengthOf	`` , i64 u8x`// not a comment` ,MetaDataX pack// `tick` ""quote"" 'q'
+`crlf
+line`
+, Logon charz `crlf
+line`
+    ,
+    // a // b
+    }
+")).
+Eval vm_compute in ("<<<M4236>>>" ++ check (runes_of_ascii "
+packet
+msg_type  // trailing space 
+  { match	leftPad	as
+
+float {
+    3// packet A { u8 x, }
+	:	repeatCount // trailing space 
+  ,
+[0123456789, 
+	    // a // b
+      3
+, 10
+,
+    65535
+
+    , // c
+1 ] :Header
+
+    , 
+""{,}"" :packetx ,
+	0	// @lengthOf(
+:
+
+    _x//	t
+  , } , 
+}")).
+Eval vm_compute in ("<<<M3858>>>" ++ check (runes_of_ascii "options 
+{	LittleEndian
+
+    = true
+    ;  }
+
+    packet Logon {
+u8
+    x
+,
+
+string
+
+    user	, }
+	packet Logout{
+u16 reason ,
+}packet
+	Empty { } 
+root packet
+    Frame
+    {u16
+	MsgType 
+, 
+@lengthOf(	Body )u8 BodyLen
+
+, 
+u8
+
+flags
+, Logon  Body
+	,  u32
+	trailer 
+, } ")).
+Eval vm_compute in ("<<<M4324>>>" ++ check (runes_of_ascii "MetaData i64_ {
+    char[255] tag,
+    uint32 Z9_,
+    T options1 `a\`,
+    options1 Pad,
+    f32 leftPad `line1
+    line2`,
+}
+
+options {
+}
+
+root packet uint8x {
+    // `tick` ""quote"" 'q'
+    @lengthOf(float)
+    falsey int `
+    `,
 }
 
 MetaData A {
-    zchar[4294967296] asx,
-    int8 pack,
-    char[65535] Packet,
-    uint8 lengthOf `" ++ [28040; 24687; 31867; 22411]%N ++ runes_of_ascii "`,
-    char[10] i64_ `" ++ [233]%N ++ runes_of_ascii "`,
+    u8 Packet,
 }")).
-Eval vm_compute in ("<<<M1193>>>" ++ check (runes_of_ascii "options
-// packet A { u8 x, }
-// @lengthOf(
-{ asx
-    // " ++ [128512]%N ++ runes_of_ascii " emoji
-    = // trailing space 
-true u128 //x
-= ""// no comment""	len	= ' ' ; crc =
-    ""1"" ; f32a
-= zchar[
-    //
-    255 ] ;} packet falsey
-{ @calculatedFrom(  ""{,}""
-)	@lengthOf(
-f32a) repeat int64
-i8i8
-    `two words` ,
-    //
-    float64
-Z9_
-    @lengthOf(
-    A ) `" ++ [28040; 24687; 31867; 22411]%N ++ runes_of_ascii "` ,match int as calculatedFrom { // trailing space 
-10
-:
-T//	t
-, }, } //	t")).
-Eval vm_compute in ("<<<M3440>>>" ++ check (runes_of_ascii "// top
+Eval vm_compute in ("<<<M1593>>>" ++ check (runes_of_ascii "root packet Foo // " ++ [128512]%N ++ runes_of_ascii " emoji
+{ } options {
+    // a // b
+    tag // `tick` ""quote"" 'q'
+= //	t
+""""
+    ; u8x = zchar[0  ] }
+MetaData
+    int {zchar[ 10]
+lengthOf	`` , i64 u8x`// not a comment` ,MetaDataX pack// `tick` ""quote"" 'q'
+`crlf
+line`
+, Logon charz")).
+Eval vm_compute in ("<<<M47>>>" ++ check (runes_of_ascii "  root packet rootA { @leftPad
+(
+'\x00' // `tick` ""quote"" 'q'
+) @lengthOf(
+    crc ) @lengthOf( string_ ) uint16 Z9_ `
+`	, @lengthOf( Z9_ )char[4294967296
+    ]  zchar `say ""hi""` ,
+    u, match
+int as
+    stringy {
+3 :
+    body, }
+    ,	} 	 ")).
+Eval vm_compute in ("<<<M3443>>>" ++ check (runes_of_ascii "// top
 packet // c0a
   // c0b
-B // c1
-{ // c2a
-  // c2b
-u8 // c3
-a // c4a
-  // c4b
+B // c1a
+  // c1b
+{ u8 // c3a
+  // c3b
+a // c4
+, string
+    // c6
+s , // c8
+} // c9
+root
+    // c10
+packet // c11
+P // c12
+{ u16 L @lengthOf( B ) , // c19
+B // c20a
+  // c20b
+, u8
+    // c22
+t , } // c25
+")).
+Eval vm_compute in ("<<<M4050>>>" ++ check (runes_of_ascii "packet calculatedFrom {
+    @lengthOf(zchar)
+    char[] chars `line1
+        line2`,
+    string Logon @calculatedFrom(""it's""),
+    matchKey `say ""hi""`,
+    @lengthOf(T)
+    x_y_z @calculatedFrom(""it's"") `// not a comment`,
+}")).
+Eval vm_compute in ("<<<M2343>>>" ++ check (runes_of_ascii "MetaData Packet { }packet	asx  { @lengthOf( asx) falsey`crlf
+line`
 ,
+    }
+    packet x	{uint32// @lengthOf(
+rootA	,u32 options1 `say ""hi""` , @tag( 7
+    options// packet A { u8 x, }
+msg_type @lengthOf(
+stringy	)	, }
+
+")).
+Eval vm_compute in ("<<<M2313>>>" ++ check (runes_of_ascii "MetaData Packet { }packet	asx  { @lengthOf( asx) falsey`crlf
+line`
+,
+    }
+    packet x	{uint32// @lengthOf(
+rootA	,@tag( options1 `say ""hi""` , @tag( 7
+    )// packet A { u8 x, }
+msg_type @lengthOf(
+stringy	)	, }
+
+")).
+Eval vm_compute in ("<<<M2227>>>" ++ check (runes_of_ascii "MetaData Packet { packet}	asx  { @lengthOf( asx) falsey`crlf
+line`
+,
+    }
+    packet x	{uint32// @lengthOf(
+rootA	,u32 options1 `say ""hi""` , @tag( 7
+    )// packet A { u8 x, }
+msg_type @lengthOf(
+stringy	)	, }
+
+")).
+Eval vm_compute in ("<<<M2220>>>" ++ check (runes_of_ascii "MetaData Packet  }packet	asx  { @lengthOf( asx) falsey`crlf
+line`
+,
+    }
+    packet x	{uint32// @lengthOf(
+rootA	,u32 options1 `say ""hi""` , @tag( 7
+    )// packet A { u8 x, }
+msg_type @lengthOf(
+stringy	)	, }
+
+")).
+Eval vm_compute in ("<<<M1333>>>" ++ check (runes_of_ascii "options { BodyLength
+=' ' zchar = true; calculatedFrom = float64
+    T =  ' ' ; // c
+}
+packet i64_ {
+    repeat zchar[
+    3
+] roots `say ""hi""`
+    ,zchar[ 65535 ] Z9_ @lengthOf( msg_type
+    ) `two words`, }
+")).
+Eval vm_compute in ("<<<M2315>>>" ++ check (runes_of_ascii "MetaData Packet { }packet	asx  { @lengthOf( asx) falsey`crlf
+line`
+,
+    }
+    packet x	{uint32// @lengthOf(
+rootA	,u32  `say ""hi""` , @tag( 7
+    )// packet A { u8 x, }
+msg_type @lengthOf(
+stringy	)	, }
+
+")).
+Eval vm_compute in ("<<<M4149>>>" ++ check (runes_of_ascii "
+// top
+	MetaData 
+
+// c0
+_x 
+// c1
+
+  {
+	    // c2
+    zchar[
+	    // c3
+    	4294967296  
+  // c4
+] 
     // c5
-} // c6
-root packet P // c9
-{ u8 // c11
-K // c12a
-  // c12b
-, // c13
-match
-    // c14
-K
-    // c15
-as Body // c17a
-  // c17b
-{
-    // c18
-1
-    // c19
-: B // c21
-, }
-    // c23
-, u16 // c25
-L @lengthOf( // c27a
-  // c27b
-Body // c28a
-  // c28b
-) // c29
-, // c30a
-  // c30b
-} // c31a
-  // c31b
-")).
-Eval vm_compute in ("<<<M4451>>>" ++ check (runes_of_ascii "  // @lengthOf(
-options
-	{ u128
+	lengthOf 
+// c6
+  `// not a comment`
 
-= uint32}packet
-T 
-{ // packet A { u8 x, }
-} 
-options {  }  MetaData // " ++ [27880; 37322]%N ++ runes_of_ascii "
-  pack  // " ++ [128512]%N ++ runes_of_ascii " emoji
-{
-} packet
-_x { 
-@tag(
-1 )
-char[ 
-00
-
-] x_y_z 
-@calculatedFrom(
-""\" ++ [233]%N ++ runes_of_ascii """
-)	, 
-f32
-    a1  ,
-
-@rightPad (
-	'0' ) 
-zchar[ 00 ]  u `u8 x,`
-	, @lengthOf(
-msg_type
-
-) x{ metadata
-
-    ,
-
-    }
-	, 
-
-    // packet A { u8 x, }
-	  char[]
-float  , }
-")).
-Eval vm_compute in ("<<<M343>>>" ++ check (runes_of_ascii "
-root packet Packet { @calculatedFrom(""packet""
-)
-    char[]  Packet
-, match	crc
-as T {255 :A ,
-} ,
-/// triple
-// `tick` ""quote"" 'q'
-repeat x_y_z , x_y_z@calculatedFrom( ""`tick`"" )`a\` ,
+    // c7
+  , 
+	// c8
+    } 
+    // c9")).
+Eval vm_compute in ("<<<M1376>>>" ++ check (runes_of_ascii "packet _x
+{ repeat packetx {match Pad
+    as
 // c
-//x
-@calculatedFrom( // a // b
-""" ++ [28040; 24687]%N ++ runes_of_ascii """ ) @lengthOf(Foo
-    )match MetaDataX as T
-    { 0 : repeatCount , } , } MetaData string_
-{ u64 x_y_z,	}packet u // " ++ [27880; 37322]%N ++ runes_of_ascii "
-{
-    }
-")).
-Eval vm_compute in ("<<<M517>>>" ++ check (runes_of_ascii "options { }root packet matchKey { @calculatedFrom(""a\\"" ) repeat
-i32 int`" ++ [233]%N ++ runes_of_ascii "` , } MetaData
-    repeatCount
-    { zchar[ // `tick` ""quote"" 'q'
-1
-    ]stringy  ,o lengthOf `u8 x,` ,
-zchar[42
-    ]	Header , char[ 65535
-] len `say ""hi""`
-    , int16
-crc `" ++ [233]%N ++ runes_of_ascii "` ,
-    char[]u8x ,	}
-root packet	repeatCount{@lengthOf(
-    charz )
-u128
-    ,/// triple
-}")).
-Eval vm_compute in ("<<<M589>>>" ++ check (runes_of_ascii "options {
-    MetaDataX = ""it's""
-    ; Header
-// " ++ [128512]%N ++ runes_of_ascii " emoji
-// " ++ [128512]%N ++ runes_of_ascii " emoji
-= // packet A { u8 x, }
-true ; u8x
-    =
-false; stringy= """ ++ [233]%N ++ runes_of_ascii "t" ++ [233]%N ++ runes_of_ascii """  }
-MetaData i64_{ a1 // trailing space 
-_x // a // b
-, u16 charz , char[ 1 ]	u `doc` , uint64 i8i8 ,/// triple
-o /// triple
-uint8x	,
-char[]
-Pad ,}
-packet _x{  }
-options { // " ++ [128512]%N ++ runes_of_ascii " emoji
-u= false }
-")).
-Eval vm_compute in ("<<<M3876>>>" ++ check (runes_of_ascii "root packet x {
-    string packetx `{ , }`,
-    char stringy `// not a comment`,
-    match charz as u128 {
-        """ ++ [128512]%N ++ runes_of_ascii """ : _x,
-        0 : options1,
-        // packet A { u8 x, }
-        42 : trueish,
-        [
-            00, 255, 00, ""it's"", """ ++ [28040; 24687]%N ++ runes_of_ascii """,
-            ""\n""
-        ] : lengthOf,
-        1 : len,
-    },
-}")).
-Eval vm_compute in ("<<<M630>>>" ++ check (runes_of_ascii "root packet As { match pack as body{ [3 , ""\" ++ [233]%N ++ runes_of_ascii """ ,255, 007	, 00
-// trailing space 
-//	t
-,
-007
-    ]
-    :Pad ,}
-    //x
-    ,
-@lengthOf(
-    charz )
-@rightPad ( '0') @calculatedFrom( ""1"" ) repeatCount BodyLength  ,	@rightPad ('\x00' ) zchar[ 00 ] string_
-`" ++ [28040; 24687; 31867; 22411]%N ++ runes_of_ascii "` , crc @lengthOf(
-    msg_type )
-, //x
-}")).
-Eval vm_compute in ("<<<M1565>>>" ++ check (runes_of_ascii "root packet Foo // " ++ [128512]%N ++ runes_of_ascii " emoji
-{ } options {
-    // a // b
-    tag // `tick` ""quote"" 'q'
-= //	t
-""""
-    ; u8x = zchar[0  ] }
-MetaData
-    int {zchar[ 10]
-lengthOf	`` , i64 u8x`// not a comment` ,MetaDataX pack pack// `tick` ""quote"" 'q'
-`crlf
-line`
-, Logon charz `crlf
-line`
-    ,
-    // a // b
-    }
-")).
-Eval vm_compute in ("<<<M1427>>>" ++ check (runes_of_ascii "root packet Foo // " ++ [128512]%N ++ runes_of_ascii " emoji
-f32 } options {
-    // a // b
-    tag // `tick` ""quote"" 'q'
-= //	t
-""""
-    ; u8x = zchar[0  ] }
-MetaData
-    int {zchar[ 10]
-lengthOf	`` , i64 u8x`// not a comment` ,MetaDataX pack// `tick` ""quote"" 'q'
-`crlf
-line`
-, Logon charz `crlf
-line`
-    ,
-    // a // b
-    }
-")).
-Eval vm_compute in ("<<<M1618>>>" ++ check (runes_of_ascii "root packet Foo // " ++ [128512]%N ++ runes_of_ascii " emoji
-{ } options {
-    // a // b
-    tag // `tick` ""quote"" 'q'
-= //	t
-""""
-    ; u8x = zchar[0  ] }
-MetaData
-    int {zchar[ 10]
-lengthOf	`` , i64 u8x`// not a comment` ,MetaDataX pack// `tick` ""quote"" 'q'
-`crlf
-line`
-, " ++ [233]%N ++ runes_of_ascii "Logon charz `crlf
-line`
-    ,
-    // a // b
-    }
-")).
-Eval vm_compute in ("<<<M1541>>>" ++ check (runes_of_ascii "root packet Foo // " ++ [128512]%N ++ runes_of_ascii " emoji
-{ } options {
-    // a // b
-    tag // `tick` ""quote"" 'q'
-= //	t
-""""
-    ; u8x = zchar[0  ] }
-MetaData
-    int {zchar[ 10]
-lengthOf	`` , u8x i64`// not a comment` ,MetaDataX pack// `tick` ""quote"" 'q'
-`crlf
-line`
-, Logon charz `crlf
-line`
-    ,
-    // a // b
-    }
-")).
-Eval vm_compute in ("<<<M1594>>>" ++ check (runes_of_ascii "root packet Foo // " ++ [128512]%N ++ runes_of_ascii " emoji
-{ } options {
-    // a // b
-    tag // `tick` ""quote"" 'q'
-= //	t
-""""
-    ; u8x = zchar[0  ] }
-MetaData
-    int {zchar[ 10]
-lengthOf	`` , i64 u8x`// not a comment` ,MetaDataX pack// `tick` ""quote"" 'q'
-`crlf
-line`
-, Logon charz `crlf
-line`
-    
-    // a // b
-    }
-")).
-Eval vm_compute in ("<<<M1579>>>" ++ check (runes_of_ascii "root packet Foo // " ++ [128512]%N ++ runes_of_ascii " emoji
-{ } options {
-    // a // b
-    tag // `tick` ""quote"" 'q'
-= //	t
-""""
-    ; u8x = zchar[0  ] }
-MetaData
-    int {zchar[ 10]
-lengthOf	`` , i64 u8x`// not a comment` ,MetaDataX pack// `tick` ""quote"" 'q'
-`crlf
-line`
-,  charz `crlf
-line`
-    ,
-    // a // b
-    }
-")).
-Eval vm_compute in ("<<<M324>>>" ++ check (runes_of_ascii "packet charz
-    {repeat
-Z9_
-    x , @calculatedFrom( ""`tick`""
-) string A`crlf
-line` ,
-repeat
-    crc// trailing space 
-{
-repeat u8x , char[42 //
-] //x
-x @lengthOf(
-o )	,} ,} MetaData //
-tag { uint16 falsey
-    `say ""hi""` ,
-i32 asx ,char[ 007 ] As
 // a // b
-/// triple
-, }
-")).
-Eval vm_compute in ("<<<M797>>>" ++ check (runes_of_ascii "
-root packet Pad { @rightPad (
-'\x00') trueish
-`it's`
-, } MetaData metadata
-{ char[] falsey`
-` ,} root
-packet
-    calculatedFrom { @lengthOf( packetx )@lengthOf( float)/// triple
-@tag(
-    00//
-)int `doc`, @calculatedFrom( ""\" ++ [233]%N ++ runes_of_ascii """
-) @tag( 4294967296	) char[]_x `doc`, }")).
-Eval vm_compute in ("<<<M951>>>" ++ check (runes_of_ascii "root packet
-    pack {
-body ,
-char[
-10
-]	options1 ,	@tag( 007 )
-    //	t
-    @rightPad ( )@calculatedFrom( ""\n""
-)
-    // " ++ [128512]%N ++ runes_of_ascii " emoji
-    char[] tag
-    , repeat char[] Header  `` , asx {
-    repeat u8x
-    { repeat	u8 x_y_z , }// c
-, }
-,
-}MetaData pack { }
-")).
-Eval vm_compute in ("<<<M667>>>" ++ check (runes_of_ascii "  options { o=// `tick` ""quote"" 'q'
-""CRC32""; } options {Header=u32 ; // packet A { u8 x, }
-packetx=char[] T =char[	65535
-];
-// packet A { u8 x, }
-// a // b
-u8x =
-    ""// no comment"" ;
-string_
-    /// triple
-    = true ; }	root
-packet
-tag {} 	 ")).
-Eval vm_compute in ("<<<M312>>>" ++ check (runes_of_ascii "options {
-f32a= 3	;Logon
-    =
-    ""x y"";
-len
-=
-10	}packet string_ {@lengthOf( MetaDataX ) // c
-int32 f32a , _x @lengthOf( rootA) ,@rightPad ( ) stringy ,
-@tag( 0123456789 )
-    // a // b
-    repeatCount @calculatedFrom( """ ++ [128512]%N ++ runes_of_ascii """
-    ), }
-")).
-Eval vm_compute in ("<<<M2246>>>" ++ check (runes_of_ascii "MetaData Packet { }packet	asx  { @lengthOf( @lengthOf( asx) falsey`crlf
-line`
-,
-    }
-    packet x	{uint32// @lengthOf(
-rootA	,u32 options1 `say ""hi""` , @tag( 7
-    )// packet A { u8 x, }
-msg_type @lengthOf(
-stringy	)	, }
-
-")).
-Eval vm_compute in ("<<<M2281>>>" ++ check (runes_of_ascii "MetaData Packet { }packet	asx  { @lengthOf( asx) falsey`crlf
-line`
-,
-    }
-    packet packet x	{uint32// @lengthOf(
-rootA	,u32 options1 `say ""hi""` , @tag( 7
-    )// packet A { u8 x, }
-msg_type @lengthOf(
-stringy	)	, }
-
-")).
-Eval vm_compute in ("<<<M1059>>>" ++ check (runes_of_ascii "// " ++ [128512]%N ++ runes_of_ascii " emoji
-MetaData //x
-Foo
-    { }  MetaData
-x {
-}MetaData zchar
-{ options1	f32a , int32 stringy ,
-    string
-    msg_type
-`
-` ,string T , a1 trueish `{ , }`
-// packet A { u8 x, }
-/// triple
-, f32 BodyLength
-    , }")).
-Eval vm_compute in ("<<<M2383>>>" ++ check (runes_of_ascii "MetaData Packet { }packet	asx  { @lengthOf( asx) falsey`crlf
-line`
-,
-    " ++ [233]%N ++ runes_of_ascii "}
-    packet x	{uint32// @lengthOf(
-rootA	,u32 options1 `say ""hi""` , @tag( 7
-    )// packet A { u8 x, }
-msg_type @lengthOf(
-stringy	)	, }
-
-")).
-Eval vm_compute in ("<<<M2332>>>" ++ check (runes_of_ascii "MetaData Packet { }packet	asx  { @lengthOf( asx) falsey`crlf
-line`
-,
-    }
-    packet x	{uint32// @lengthOf(
-rootA	,u32 options1 `say ""hi""` , 7 @tag(
-    )// packet A { u8 x, }
-msg_type @lengthOf(
-stringy	)	, }
-
-")).
-Eval vm_compute in ("<<<M251>>>" ++ check (runes_of_ascii "MetaData rootA	{
-roots Header ,} root packet chars{ @tag(  1  )
-repeat char[] stringy `doc` ,}
-    root packet int{ uint8x MetaDataX	, }MetaData Logon {
-x_y_z
-i64_// @lengthOf(
-,Z9_
-_x , body crc `say ""hi""`,
-}
-")).
-Eval vm_compute in ("<<<M2369>>>" ++ check (runes_of_ascii "MetaData Packet { }packet	asx  { @lengthOf( asx) falsey`crlf
-line`
-,
-    }
-    packet x	{uint32// @lengthOf(
-rootA	,u32 options1 `say ""hi""` , @tag( 7
-    )// packet A { u8 x, }
-msg_type @lengthOf(
-stringy	)")).
-Eval vm_compute in ("<<<M4411>>>" ++ check (runes_of_ascii "packet A {
-    match k as n {
-        ""\
-                "" : B,
-        [1, ""\
-                ""] : C,
-        [
-            1, 2, 3, 4, 5,
-            ""\
-                        ""
-        ] : D,
-    },
-}")).
-Eval vm_compute in ("<<<M895>>>" ++ check (runes_of_ascii "
-packet zchar {	@rightPad (
-) repeat char[]leftPad	, @calculatedFrom(""{,}"" )
-    u ,
-i64_ @calculatedFrom( ""// no comment"" ),
-    // c
-    }
-// packet A { u8 x, }
-// " ++ [128512]%N ++ runes_of_ascii " emoji
-packet lengthOf{ }
-")).
-Eval vm_compute in ("<<<M955>>>" ++ check (runes_of_ascii "options {  charz =
-    """ ++ [128512]%N ++ runes_of_ascii """crc
+roots {""// no comment"" :
+    tag
+,[ """ ++ [233]%N ++ runes_of_ascii "t" ++ [233]%N ++ runes_of_ascii """, ""\" ++ [233]%N ++ runes_of_ascii """
+    ]:	As	,3	:  options1 ,3 : charz ,
+    } , //
+} , repeat
+    Foo`line1
+line2`, }")).
+Eval vm_compute in ("<<<M1231>>>" ++ check (runes_of_ascii "packet
+    T { @leftPad
+( ' ' )
+    // " ++ [27880; 37322]%N ++ runes_of_ascii "
+    int32
 // " ++ [27880; 37322]%N ++ runes_of_ascii "
-//x
-= false;
-    u128
-= false
-    ; crc
-=
-' '}
-    /// triple
-    packet msg_type { string u8x , zchar[ 10] zchar@calculatedFrom(
-    ""abc"") `{ , }`, }
-")).
-Eval vm_compute in ("<<<M1012>>>" ++ check (runes_of_ascii "packet  int
-    { match	roots
-//	t
 // @lengthOf(
-as//	t
-u8x {7 : packetx,
-0
-: As  ""packet"" :
-    // a // b
-    a1
-// " ++ [27880; 37322]%N ++ runes_of_ascii "
-//x
-, ""packet""
-    :
-    float }	,Z9_ @lengthOf( u128
-)
-, }")).
-Eval vm_compute in ("<<<M4432>>>" ++ check (runes_of_ascii "MetaData
-    // packet A { u8 x, }
-  // @lengthOf(
-string_
+packetx
+`" ++ [233]%N ++ runes_of_ascii "`
+    ,uint16 MetaDataX
+@lengthOf( asx
+// packet A { u8 x, }
+// a // b
+)// `tick` ""quote"" 'q'
+,
+    }")).
+Eval vm_compute in ("<<<M3470>>>" ++ check (runes_of_ascii "
+packet
+A { u8	a
+	,
+	} packet 
+B 
 {
+u16 b	, } root packet
+P  {
+	u8
+	K1
 
-char[]
-Pad `// not a comment`
-,  i32// a // b
-  lengthOf`{ , }` , u16
-	As
+    ,
 
-,
+u8	K2 , match K1  as
+M1
+{1
+    :A
+, 
+} ,	match K2 
+as
 
-len
+    M2	{
+1	:
 
-x_y_z,
-char[]
-rootA
-	,	}")).
-Eval vm_compute in ("<<<M1131>>>" ++ check (runes_of_ascii "packet matchKey
-    {@calculatedFrom(	""" ++ [28040; 24687]%N ++ runes_of_ascii """
-    ) // " ++ [128512]%N ++ runes_of_ascii " emoji
-match  tag/// triple
-as// c
-Foo {
-[ ""a\""b""	, 255 //x
-]:trueish
-// c
-// " ++ [27880; 37322]%N ++ runes_of_ascii "
-,  } , // a // b
-}options{
-}
-")).
-Eval vm_compute in ("<<<M3447>>>" ++ check (runes_of_ascii "options
-    { LittleEndian =	true
-	;
-} 
-packet  B{ u8
-
-a
-    ,  string s
-
-,
-
-    } root
-
-packet	P	{
-
-u16	L  @lengthOf( B
-)
-,
-
-    B
-	, u8
-    t  ,
+    B,
 	}
+    , 
+} ")).
+Eval vm_compute in ("<<<M1382>>>" ++ check (runes_of_ascii "packet  crc {
+@lengthOf(
+    /// triple
+    calculatedFrom
+    /// triple
+    ) i64_ {
+uint64
+    _x,
+} ,
+@rightPad( '0' )
+uint8x ,
+    // packet A { u8 x, }
+    } 	 ")).
+Eval vm_compute in ("<<<M3473>>>" ++ check (runes_of_ascii "
+packet
+    A
+
+{u8
+a
+
+    ,}
+
+packet
+B
+
+{u16 
+b
+,
+    }
+
+    root
+    packet
+P	{
+u8 K
+,match
+	K  as 
+M
+
+    {
+	1 :  A  ,	1
+
+    :
+    B ,
+	}
+
+    ,
+
+}")).
+Eval vm_compute in ("<<<M3793>>>" ++ check (runes_of_ascii "
+root packet
+    lengthOf  {
+	char[
+00 
+]
+
+    x
+@lengthOf(
+matchKey
+)  , 
+
+    //	t
+
+	float64
+	repeatCount	// c
+  	,@lengthOf( 
+zchar
+
+)	char[] roots	,}")).
+Eval vm_compute in ("<<<M833>>>" ++ check (runes_of_ascii "options{ options1	=""\" ++ [233]%N ++ runes_of_ascii """ x =u64 Z9_= '0' calculatedFrom=	char[] ; } root	packet trueish
+    { } packet BodyLength
+    { @leftPad ( )
+u64 _x ,
+    }
 ")).
-Eval vm_compute in ("<<<M4128>>>" ++ check (runes_of_ascii "options {
-    zchar = 7;
-    // c
-    // packet A { u8 x, }
-    msg_type = uint8
-    falsey = 1;
-}
-
-MetaData Pad {
-    f64 u `tab	here`,
-}
-
-options {
+Eval vm_compute in ("<<<M4023>>>" ++ check (runes_of_ascii "packet A {
+    match k as n {
+        [
+            1, ""bb"", 007, ""d"", 5,
+            ""f"", 7, ""h"", 9, ""j""
+        ] : B,
+        2 : C,
+    },
 }")).
-Eval vm_compute in ("<<<M1653>>>" ++ check (runes_of_ascii "root packet /// triple
-rootA {	i32
-MetaDataX@calculatedFrom( @calculatedFrom( ""CRC32"" ) `line1
-line2` , } MetaData BodyLength {
-u8
-rootA, } // c")).
-Eval vm_compute in ("<<<M3610>>>" ++ check (runes_of_ascii "// c
-options {
-    lengthOf = false
-    Logon = false;
-}
+Eval vm_compute in ("<<<M3907>>>" ++ check (runes_of_ascii "  options
+	{
+i8i8
 
-MetaData lengthOf {
-    float32 i8i8,
-}
+=
+char[]	;
+}packet
 
-root packet roots {
-    zchar[7] f32a,
-}")).
-Eval vm_compute in ("<<<M309>>>" ++ check (runes_of_ascii "options {
-Pad = // " ++ [27880; 37322]%N ++ runes_of_ascii "
-3 ; float =
-false
-    // packet A { u8 x, }
-    ;
-Z9_ =""packet""	chars=
-""a\""b"" float=
-""a\\""} MetaData zchar { } 	 ")).
-Eval vm_compute in ("<<<M3445>>>" ++ check (runes_of_ascii "options {
-    LittleEndian = true;
+    MetaDataX
+
+{ 
+@calculatedFrom( ""x y""
+
+) 
+int32
+    T
+
+    `" ++ [28040; 24687; 31867; 22411]%N ++ runes_of_ascii "`,  f64
+matchKey ,
+    }
+
+")).
+Eval vm_compute in ("<<<M143>>>" ++ check (runes_of_ascii "options { msg_type = 00 string_ =
+// `tick` ""quote"" 'q'
+// c
+0 x
+=
+zchar[
+255 ] ;leftPad =false ;f32a // @lengthOf(
+=
+007 ; // " ++ [27880; 37322]%N ++ runes_of_ascii "
+}
+")).
+Eval vm_compute in ("<<<M3471>>>" ++ check (runes_of_ascii "packet A {
+    u8 a,
 }
 packet B {
-    u8 a,
-    string s,
+    u16 b,
 }
 root packet P {
-    u16 L @lengthOf(B),
-    B,
-    u8 t,
+    u8 K,
+    match K as M {
+        1 : A,
+        1 : B,
+    },
 }
 ")).
-Eval vm_compute in ("<<<M1693>>>" ++ check (runes_of_ascii "root packet /// triple
-rootA {	i32
-MetaDataX@calculatedFrom( ""CRC32"" ) `line1
-line2` , } MetaData BodyLength { {
-u8
-rootA, } // c")).
-Eval vm_compute in ("<<<M1679>>>" ++ check (runes_of_ascii "root packet /// triple
-rootA {	i32
-MetaDataX@calculatedFrom( ""CRC32"" ) `line1
-line2` , MetaData } BodyLength {
-u8
-rootA, } // c")).
-Eval vm_compute in ("<<<M1645>>>" ++ check (runes_of_ascii "root packet /// triple
-rootA {	(
+Eval vm_compute in ("<<<M4476>>>" ++ check (runes_of_ascii "packet A {
+    match k as n {
+        [
+            1, 22, 007, 4, 5,
+            66, 7, 8
+        ] : B,
+        2 : C,
+    },
+}")).
+Eval vm_compute in ("<<<M1736>>>" ++ check (runes_of_ascii "root packet /// triple
+" ++ [252]%N ++ runes_of_ascii "ber {	i32
 MetaDataX@calculatedFrom( ""CRC32"" ) `line1
 line2` , } MetaData BodyLength {
 u8
 rootA, } // c")).
-Eval vm_compute in ("<<<M1690>>>" ++ check (runes_of_ascii "root packet /// triple
+Eval vm_compute in ("<<<M4443>>>" ++ check (runes_of_ascii "packet
+calculatedFrom 
+{  @tag(
+
+4294967296)	u
+
+    msg_type
+, char[3
+	] crc
+@lengthOf(
+len )`u8 x,` 
+
+    // c
+    ,}
+")).
+Eval vm_compute in ("<<<M4510>>>" ++ check (runes_of_ascii "packet
+
+A
+
+    { Inner
+	{ match
+	k	as n{
+
+    [	1
+
+, 22
+    ,
+
+007 ,
+    4
+
+    ,  5 ,
+
+66
+,	7
+] :
+    B 
+,}
+,},} ")).
+Eval vm_compute in ("<<<M1682>>>" ++ check (runes_of_ascii "root packet /// triple
 rootA {	i32
 MetaDataX@calculatedFrom( ""CRC32"" ) `line1
-line2` , } MetaData uint16 {
+line2` , }  BodyLength {
 u8
 rootA, } // c")).
-Eval vm_compute in ("<<<M1657>>>" ++ check (runes_of_ascii "root packet /// triple
-rootA {	i32
-MetaDataX@calculatedFrom(  ) `line1
-line2` , } MetaData BodyLength {
-u8
-rootA, } // c")).
-Eval vm_compute in ("<<<M1821>>>" ++ check (runes_of_ascii "packet
+Eval vm_compute in ("<<<M4302>>>" ++ check (runes_of_ascii "options {
+    // " ++ [27880; 37322]%N ++ runes_of_ascii "
+    // trailing space 
+    crc = '\x00'
+}
+
+packet len {
+}
+
+packet repeatCount {
+}// trailing space ")).
+Eval vm_compute in ("<<<M1792>>>" ++ check (runes_of_ascii "packet
     Pad // a // b
-{ i8i8 @calculatedFrom( ""a	b"") `u8 x,` , ,
+i8i8 { @calculatedFrom( ""a	b"") `u8 x,` ,
 } options{ float// " ++ [128512]%N ++ runes_of_ascii " emoji
 = f64 i64_
 =//	t
 00 }
 ")).
-Eval vm_compute in ("<<<M3691>>>" ++ check (runes_of_ascii "packet
-    o
-{
-@tag(
+Eval vm_compute in ("<<<M1845>>>" ++ check (runes_of_ascii "packet
+    Pad // a // b
+{ i8i8 @calculatedFrom( ""a	b"") `u8 x,` ,
+} options{ float// " ++ [128512]%N ++ runes_of_ascii " emoji
+ f64 i64_
+=//	t
+00 }
+")).
+Eval vm_compute in ("<<<M1850>>>" ++ check (runes_of_ascii "packet
+    Pad // a // b
+{ i8i8 @calculatedFrom( ""a	b"") `u8 x,` ,
+} options{ float// " ++ [128512]%N ++ runes_of_ascii " emoji
+=  i64_
+=//	t
+00 }
+")).
+Eval vm_compute in ("<<<M1781>>>" ++ check (runes_of_ascii "
+    Pad // a // b
+{ i8i8 @calculatedFrom( ""a	b"") `u8 x,` ,
+} options{ float// " ++ [128512]%N ++ runes_of_ascii " emoji
+= f64 i64_
+=//	t
+00 }
+")).
+Eval vm_compute in ("<<<M1298>>>" ++ check (runes_of_ascii "root
+    packet options1 { @calculatedFrom( """ ++ [128512]%N ++ runes_of_ascii """ ) u8x
+@calculatedFrom( ""a\\""
+/// triple
+// @lengthOf(
+) ,	}
+")).
+Eval vm_compute in ("<<<M3444>>>" ++ check (runes_of_ascii "
+packet	B  { u8
+    a	,	string s	, }
+root packet
 
-    42
-    )
-    repeat x	{ char[ 0123456789 ]  // c
-    	i64_, }	,
+    P {	u16
 
-    }
+L
+	@lengthOf( B)	,
+B,
+u8
+t
+	,
+
+    } ")).
+Eval vm_compute in ("<<<M3343>>>" ++ check (runes_of_ascii "packet calculatedFrom { // c
+@tag( 4294967296 ) u msg_type , char[ 3 ] crc @lengthOf( len ) `u8 x,` , }")).
+Eval vm_compute in ("<<<M3450>>>" ++ check (runes_of_ascii "
 options{
-    }
-")).
-Eval vm_compute in ("<<<M241>>>" ++ check (runes_of_ascii "packet Pad {}packet
-    options1{// trailing space 
-}
-    // @lengthOf(
-    root
-packet
-crc
-{
-    repeat crc len , }")).
-Eval vm_compute in ("<<<M75>>>" ++ check (runes_of_ascii "options { pack =0 } MetaData int{ char[	00
-    ]
-    T
-    `crlf
-line` ,  i8 string_
-,//	t
-int16
-matchKey , }
-")).
-Eval vm_compute in ("<<<M2978>>>" ++ check (runes_of_ascii "packet A {
-  match k as n {
-    [""a"", ""bb"", ""c c"", ""d"", ""e"", ""f"", ""g"", ""h"", ""i"", ""j"", ""k""] : B,
-    2 : C
-  },
-}")).
-Eval vm_compute in ("<<<M1696>>>" ++ check (runes_of_ascii "root packet /// triple
-rootA {	i32
-MetaDataX@calculatedFrom( ""CRC32"" ) `line1
-line2` , } MetaData BodyLength")).
-Eval vm_compute in ("<<<M2966>>>" ++ check (runes_of_ascii "packet A {
-  match k as n {
-    [""a"", ""bb"", ""c c"", ""d"", ""e"", ""f"", ""g"", ""h"", ""i"", ""j""] : B
-    2 : C
-  },
-}")).
-Eval vm_compute in ("<<<M3011>>>" ++ check (runes_of_ascii "packet A {
-    Inner {
-        u8 x `a
-b`,
-        Deep {
-            u8 y `a
-b`,
-        },
-    },
-}")).
-Eval vm_compute in ("<<<M3368>>>" ++ check (runes_of_ascii "packet calculatedFrom { @tag( 4294967296 ) u msg_type , char[ 3 ] crc @lengthOf( len
-// c
-) `u8 x,` , }")).
-Eval vm_compute in ("<<<M3709>>>" ++ check (runes_of_ascii "  packet	A
 
-{Inner  {
-match k
+    FixedStringPadFromLeft
 
-    as n{ [
-	1
+=
 
-    , 22
-	, 007
-	, 4
-	]:
-B
+    true
 
-    ,
-}
+; } root
+	packet 
+P{
+    char[4
+]z 
 ,
-    },} ")).
-Eval vm_compute in ("<<<M2989>>>" ++ check (runes_of_ascii "packet A {
+
+    } ")).
+Eval vm_compute in ("<<<M2969>>>" ++ check (runes_of_ascii "packet A {
   match k as n {
-    [1, 22, 007, 4, 5, 66, 7, 8, 9, 10, 11, 12] : B,
+    [""a"", 22, ""c c"", 4, ""e"", 66, ""g"", 8, ""i"", 10] : B,
     2 : C
   },
 }")).
-Eval vm_compute in ("<<<M3218>>>" ++ check (runes_of_ascii "packet Logon // c
+Eval vm_compute in ("<<<M4372>>>" ++ check (runes_of_ascii "
+options
+
+{ LittleEndian =	true ;
+
+    }  root
+	packet P
+
+{  repeat
+	char 
+cs ,u8
+    x ,
+    }")).
+Eval vm_compute in ("<<<M3219>>>" ++ check (runes_of_ascii "packet Logon
+// c
 { @tag( 42 ) @rightPad ( ' ' ) @leftPad ( ) repeat trueish { string T , } , }")).
-Eval vm_compute in ("<<<M3250>>>" ++ check (runes_of_ascii "packet Logon { @tag( 42 ) @rightPad ( ' ' ) @leftPad ( ) repeat trueish { string T // c
+Eval vm_compute in ("<<<M3251>>>" ++ check (runes_of_ascii "packet Logon { @tag( 42 ) @rightPad ( ' ' ) @leftPad ( ) repeat trueish { string T
+// c
 , } , }")).
-Eval vm_compute in ("<<<M3780>>>" ++ check (runes_of_ascii "  options{
+Eval vm_compute in ("<<<M4240>>>" ++ check (runes_of_ascii "packet crc {
+    repeat int64 string_ `" ++ [28040; 24687; 31867; 22411]%N ++ runes_of_ascii "`,
+}
 
-stringy
-	= 
-""x y"" ;
-chars = true
-	Logon	=
-	string crc= true
+root packet leftPad {
+}
 
-    Logon= char}
-")).
+MetaData A {
+}
+// c")).
 Eval vm_compute in ("<<<M2958>>>" ++ check (runes_of_ascii "packet A {
   match k as n {
     [1, 22, ""c c"", 4, 5, ""f"", 7, 8, ""i""] : B,
     2 : C
   },
 }")).
-Eval vm_compute in ("<<<M1681>>>" ++ check (runes_of_ascii "root packet /// triple
-rootA {	i32
-MetaDataX@calculatedFrom( ""CRC32"" ) `line1
-line2` ,")).
-Eval vm_compute in ("<<<M2931>>>" ++ check (runes_of_ascii "packet A {
+Eval vm_compute in ("<<<M2964>>>" ++ check (runes_of_ascii "packet A {
   match k as n {
-    [""a"", 22, ""c c"", 4, ""e"", 66, ""g""] : B
+    [1, 22, 007, 4, 5, 66, 7, 8, 9, 10] : B
     2 : C
   },
 }")).
-Eval vm_compute in ("<<<M1991>>>" ++ check (runes_of_ascii "root
-packet crc
-    { f32a @calculatedFrom( """ ++ [233]%N ++ runes_of_ascii "t" ++ [233]%N ++ runes_of_ascii """ 
-    `say ""hi""`, lengthOf `` ,  }")).
-Eval vm_compute in ("<<<M3332>>>" ++ check (runes_of_ascii "packet o { @tag( 42 ) repeat x { char[ 0123456789 ] i64_ , } , } options { } // c
+Eval vm_compute in ("<<<M1004>>>" ++ check (runes_of_ascii "packet i64_	{
+} MetaData metadata
+    {int64 string_	`doc`  ,
+}
+    packet T{
+    }
 ")).
-Eval vm_compute in ("<<<M3309>>>" ++ check (runes_of_ascii "packet o { @tag( 42 ) repeat x
-// c
-{ char[ 0123456789 ] i64_ , } , } options { }")).
-Eval vm_compute in ("<<<M1986>>>" ++ check (runes_of_ascii "root
+Eval vm_compute in ("<<<M1998>>>" ++ check (runes_of_ascii "root
 packet crc
-    { f32a @calculatedFrom(  )
+    { f32a @calculatedFrom( """ ++ [233]%N ++ runes_of_ascii "t" ++ [233]%N ++ runes_of_ascii """ )
+    ,`say ""hi""` lengthOf `` ,  }")).
+Eval vm_compute in ("<<<M4404>>>" ++ check (runes_of_ascii "
+MetaData
+    stringy
+    {  char[ 
+0
+
+]
+
+    chars// @lengthOf(
+  `{ , }`  ,  }
+")).
+Eval vm_compute in ("<<<M1976>>>" ++ check (runes_of_ascii "root
+packet crc
+    {  @calculatedFrom( """ ++ [233]%N ++ runes_of_ascii "t" ++ [233]%N ++ runes_of_ascii """ )
     `say ""hi""`, lengthOf `` ,  }")).
-Eval vm_compute in ("<<<M2693>>>" ++ check (runes_of_ascii "true i16 i8 007 ( `{ , }` matchKey u32 65535 packet packet '\x00' ""`tick`"" u64")).
-Eval vm_compute in ("<<<M909>>>" ++ check (runes_of_ascii "options {
-T =' '	asx ='\x00' ; falsey /// triple
-=  ' '
-// " ++ [128512]%N ++ runes_of_ascii " emoji
+Eval vm_compute in ("<<<M3318>>>" ++ check (runes_of_ascii "packet o { @tag( 42 ) repeat x { char[ 0123456789 ] i64_ // c
+, } , } options { }")).
+Eval vm_compute in ("<<<M3611>>>" ++ check (runes_of_ascii "
+packet  A {
+    B	b 
+`x
+`
+
+    ,
+    B
+`x
+`
+,
+    repeat
+	B bs
+`x
+`,
+    } ")).
+Eval vm_compute in ("<<<M3817>>>" ++ check (runes_of_ascii "packet A {
+    B b `a
+    b`,
+    B `a
+    b`,
+    repeat B bs `a
+    b`,
+}")).
+Eval vm_compute in ("<<<M4308>>>" ++ check (runes_of_ascii "packet A {
+    match k as n {
+        [1, ""bb""] : B,
+        2 : C,
+    },
+}")).
+Eval vm_compute in ("<<<M1072>>>" ++ check (runes_of_ascii "packet
+    o {
+@rightPad( )// trailing space 
+x_y_z calculatedFrom , }
+
+")).
+Eval vm_compute in ("<<<M3457>>>" ++ check (runes_of_ascii "
+root
+	packet
+	P 
+{ u16  a, u32
+Sum@calculatedFrom( ""CRC32""
+    ) 
+,  }")).
+Eval vm_compute in ("<<<M3410>>>" ++ check (runes_of_ascii "MetaData _x { zchar[ 4294967296 ] lengthOf `// not a comment`
 // c
+, }")).
+Eval vm_compute in ("<<<M2184>>>" ++ check (runes_of_ascii "root
+    // `tick` ""quote"" 'q'
+    packet As { trueish Packet u16 }
+")).
+Eval vm_compute in ("<<<M3455>>>" ++ check (runes_of_ascii "root packet P {
+    u16 a,
+    u32 Sum @calculatedFrom(""CRC32""),
 }
 ")).
-Eval vm_compute in ("<<<M2889>>>" ++ check (runes_of_ascii "packet A {
+Eval vm_compute in ("<<<M939>>>" ++ check (runes_of_ascii "packet  metadata{ calculatedFrom Packet ,}
+// packet A { u8 x, }
+")).
+Eval vm_compute in ("<<<M2869>>>" ++ check (runes_of_ascii "packet A {
   match k as n {
-    [1, ""bb"", 007, ""d""] : B,
+    [""a"", 22] : B,
     2 : C
   },
 }")).
-Eval vm_compute in ("<<<M321>>>" ++ check (runes_of_ascii "MetaData As { } MetaData asx
+Eval vm_compute in ("<<<M3432>>>" ++ check (runes_of_ascii "root 
+packet 
+P
+
 {
-    char[ 007 ] Logon
-`two words` , }
-")).
-Eval vm_compute in ("<<<M4161>>>" ++ check (runes_of_ascii "options {
-    roots = ""packet"";
-    len = 0;
-    crc = zchar[65535];
-}")).
-Eval vm_compute in ("<<<M2201>>>" ++ check (runes_of_ascii "root
-    // `tick` ""quote"" 'q'
-    packet ` As { trueish Packet , }
-")).
-Eval vm_compute in ("<<<M1018>>>" ++ check (runes_of_ascii "// @lengthOf(
-MetaData chars { Header BodyLength , char[] int ,
+
+    hdr
+{ 
+u8
+a  ,}
+    ,
+u8
+x ,
+
 }
-")).
-Eval vm_compute in ("<<<M2181>>>" ++ check (runes_of_ascii "root
-    // `tick` ""quote"" 'q'
-    packet As { trueish Packet  }
-")).
-Eval vm_compute in ("<<<M3705>>>" ++ check (runes_of_ascii "MetaData options1 {
-    zchar[007] u,
-    x_y_z f32a `u8 x,`,
-}")).
-Eval vm_compute in ("<<<M4123>>>" ++ check (runes_of_ascii "
-root packet
-    A{
 
-    u8
-
-    x
-
-    `
-x`
-    , }
 ")).
-Eval vm_compute in ("<<<M3859>>>" ++ check (runes_of_ascii "MetaData M {
-    u8 x `
-        x`,
-    T t `
-        x`,
+Eval vm_compute in ("<<<M4202>>>" ++ check (runes_of_ascii "MetaData M {
+    u8 x `tab
+    	x`,
+    T t `tab
+    	x`,
 }")).
 Eval vm_compute in ("<<<M2884>>>" ++ check (runes_of_ascii "packet A { Inner { match k as n { [1,22,007] : B, }, }, }")).
-Eval vm_compute in ("<<<M1912>>>" ++ check (runes_of_ascii "
-packet	As { ""{,}""//x
-@calculatedFrom(	)lengthOf , } 	 ")).
-Eval vm_compute in ("<<<M4159>>>" ++ check (runes_of_ascii "
-packet 
-A
-{
-u8 x
-	, 
+Eval vm_compute in ("<<<M1902>>>" ++ check (runes_of_ascii "
+packet	{ As @calculatedFrom(//x
+""{,}""	)lengthOf , } 	 ")).
+Eval vm_compute in ("<<<M138>>>" ++ check (runes_of_ascii "MetaData
+    /// triple
+    falsey { uint16 Z9_ ,
+}")).
+Eval vm_compute in ("<<<M2403>>>" ++ check (runes_of_ascii "MetaData A
+{ {
+i64
+chars	, } // `tick` ""quote"" 'q'")).
+Eval vm_compute in ("<<<M3885>>>" ++ check (runes_of_ascii "  MetaData M
+
+    {
+	u8
+x`
+x`  ,T  t
+
+`
+x` , } ")).
+Eval vm_compute in ("<<<M1773>>>" ++ check (runes_of_ascii "options { }options {  } // `tick` ""quote"" 'q'\ ")).
+Eval vm_compute in ("<<<M2120>>>" ++ check (runes_of_ascii "MetaData x
+{// " ++ [128512]%N ++ runes_of_ascii " emoji
+i16 stringy stringy , }")).
+Eval vm_compute in ("<<<M1747>>>" ++ check (runes_of_ascii "options { options {  } // `tick` ""quote"" 'q'")).
+Eval vm_compute in ("<<<M4040>>>" ++ check (runes_of_ascii "
+options {
+	u8x 
+
     // c
-    u8
 
-    y , }
+=
 
+    3
+}
 ")).
-Eval vm_compute in ("<<<M1915>>>" ++ check (runes_of_ascii "
-packet	As { @calculatedFrom(//x
-	)lengthOf , } 	 ")).
-Eval vm_compute in ("<<<M3673>>>" ++ check (runes_of_ascii "packet len {
-    Logon @calculatedFrom(""a\""b""),
+Eval vm_compute in ("<<<M3018>>>" ++ check (runes_of_ascii "MetaData M {
+    u8 x `
+`,
+    T t `
+`,
 }")).
-Eval vm_compute in ("<<<M1768>>>" ++ check (runes_of_ascii "options { }optio''ns {  } // `tick` ""quote"" 'q'")).
-Eval vm_compute in ("<<<M3568>>>" ++ check (runes_of_ascii "options {
-    a = ""\
-    "";
-    b = ""\
-    ""
-}")).
-Eval vm_compute in ("<<<M2143>>>" ++ check (runes_of_ascii "MetaData x
+Eval vm_compute in ("<<<M2761>>>" ++ check (runes_of_ascii "int8 @calculatedFrom( packet i32 ) as u8")).
+Eval vm_compute in ("<<<M2138>>>" ++ check (runes_of_ascii "/MetaData x
 {// " ++ [128512]%N ++ runes_of_ascii " emoji
-i16 '\x01'stringy , }")).
-Eval vm_compute in ("<<<M780>>>" ++ check (runes_of_ascii "packet
-    trueish { matchKey  leftPad,
-}")).
-Eval vm_compute in ("<<<M3206>>>" ++ check (runes_of_ascii "MetaData zchar { zchar[ 3 ] Pad , } // c
-")).
-Eval vm_compute in ("<<<M2767>>>" ++ check (runes_of_ascii "?.FnyCC|]4Q^]Wpe|<8w(&q'w{$Q$6>[FB=&=G]#")).
-Eval vm_compute in ("<<<M2142>>>" ++ check (runes_of_ascii "MetaData x
-{// " ++ [128512]%N ++ runes_of_ascii " emoji
-i16 @stringy , }")).
+i16 stringy , }")).
 Eval vm_compute in ("<<<M2692>>>" ++ check (runes_of_ascii "JGdi0j'|Ze/o)f{H14^iRT3}Qq\} ;}&XD2>X=")).
-Eval vm_compute in ("<<<M3736>>>" ++ check (runes_of_ascii "
-root
-packet
-
-Foo// " ++ [128512]%N ++ runes_of_ascii " emoji
-	  { } ")).
-Eval vm_compute in ("<<<M2749>>>" ++ check (runes_of_ascii "uint16 """ ++ [128512]%N ++ runes_of_ascii """ uint16 float32 true root")).
-Eval vm_compute in ("<<<M2598>>>" ++ check (runes_of_ascii "packet A { B { @tag(1) u8 x, }, }")).
-Eval vm_compute in ("<<<M3871>>>" ++ check (runes_of_ascii "
-packet Foo
-
-{/// triple
-
-  }
-
-")).
-Eval vm_compute in ("<<<M2842>>>" ++ check (runes_of_ascii "f(ukmpH3;(""_fVi)^D86>RRY !%8T?")).
-Eval vm_compute in ("<<<M2444>>>" ++ check (runes_of_ascii "f32 f64 float32 float64 float")).
-Eval vm_compute in ("<<<M849>>>" ++ check (runes_of_ascii "
-options	{ falsey = """" ; }
-")).
-Eval vm_compute in ("<<<M2084>>>" ++ check (runes_of_ascii "MetaData A { u64 pack\ , }")).
-Eval vm_compute in ("<<<M2239>>>" ++ check (runes_of_ascii "MetaData Packet { }packet")).
-Eval vm_compute in ("<<<M2098>>>" ++ check (runes_of_ascii "MetaData A { u64 " ++ [252]%N ++ runes_of_ascii "ber, }")).
+Eval vm_compute in ("<<<M2850>>>" ++ check (runes_of_ascii "9h~{]Ry1}z""O-Eq~&O&et9""E9C]I0lrU:UOAN")).
+Eval vm_compute in ("<<<M2776>>>" ++ check (runes_of_ascii "@rightPad char : = char packet true")).
+Eval vm_compute in ("<<<M2814>>>" ++ check (runes_of_ascii "	" ++ [65533; 65533; 65533]%N ++ runes_of_ascii "Y" ++ [65533; 31; 65533; 65533]%N ++ runes_of_ascii "(" ++ [26]%N ++ runes_of_ascii "g" ++ [65533; 65533; 65533; 65533]%N ++ runes_of_ascii "-" ++ [567]%N ++ runes_of_ascii "q" ++ [65533; 65533; 4]%N ++ runes_of_ascii "G" ++ [65533]%N ++ runes_of_ascii "1" ++ [65533]%N ++ runes_of_ascii "/;D" ++ [65533]%N ++ runes_of_ascii "D" ++ [1; 65533]%N)).
+Eval vm_compute in ("<<<M2096>>>" ++ check (runes_of_ascii "MetaData A { '\x01' u64 pack, }")).
+Eval vm_compute in ("<<<M3083>>>" ++ check (runes_of_ascii "packet A {
+ u8 x `d" ++ [5760]%N ++ runes_of_ascii "`, // c" ++ [5760]%N ++ runes_of_ascii "
+}")).
+Eval vm_compute in ("<<<M3892>>>" ++ check (runes_of_ascii "options {
+    string_ = 007
+}")).
+Eval vm_compute in ("<<<M1985>>>" ++ check (runes_of_ascii "root
+packet crc
+    { f32a")).
+Eval vm_compute in ("<<<M2094>>>" ++ check (runes_of_ascii "MetaData \ A { u64 pack, }")).
+Eval vm_compute in ("<<<M2619>>>" ++ check (runes_of_ascii "packet A { @tag() u8 x, }")).
+Eval vm_compute in ("<<<M2661>>>" ++ check (runes_of_ascii "options { a = char[x]; }")).
 Eval vm_compute in ("<<<M2076>>>" ++ check (runes_of_ascii "MetaData A { u64 pack, ")).
-Eval vm_compute in ("<<<M2636>>>" ++ check (runes_of_ascii "root root packet A { }")).
-Eval vm_compute in ("<<<M4009>>>" ++ check (runes_of_ascii "
-packet f32a
-
+Eval vm_compute in ("<<<M2398>>>" ++ check (runes_of_ascii "MetaData A
 {
-	}
-
-")).
-Eval vm_compute in ("<<<M2234>>>" ++ check (runes_of_ascii "MetaData Packet { }")).
-Eval vm_compute in ("<<<M2659>>>" ++ check (runes_of_ascii "options { a = 1, }")).
-Eval vm_compute in ("<<<M3117>>>" ++ check (runes_of_ascii "// c" ++ [11]%N ++ runes_of_ascii "
+i64
+chars")).
+Eval vm_compute in ("<<<M3740>>>" ++ check (runes_of_ascii "options {
+    a = 1
+}")).
+Eval vm_compute in ("<<<M2562>>>" ++ check (runes_of_ascii "packet A { repeat }")).
+Eval vm_compute in ("<<<M1760>>>" ++ check (runes_of_ascii "options { }options")).
+Eval vm_compute in ("<<<M3107>>>" ++ check (runes_of_ascii "// c" ++ [8239]%N ++ runes_of_ascii "
 packet A {
 }")).
-Eval vm_compute in ("<<<M2815>>>" ++ check (runes_of_ascii "^oT&]t,1C?E|)]Q{2")).
-Eval vm_compute in ("<<<M2658>>>" ++ check (runes_of_ascii "options { = 1; }")).
-Eval vm_compute in ("<<<M2567>>>" ++ check (runes_of_ascii "packet A { x }")).
-Eval vm_compute in ("<<<M2650>>>" ++ check (runes_of_ascii "MetaData { }")).
-Eval vm_compute in ("<<<M2082>>>" ++ check (runes_of_ascii "MetaData ")).
-Eval vm_compute in ("<<<M2459>>>" ++ check (runes_of_ascii "packets")).
-Eval vm_compute in ("<<<M3145>>>" ++ check (runes_of_ascii "// c x")).
-Eval vm_compute in ("<<<M3070>>>" ++ check (runes_of_ascii "// c" ++ [160]%N)).
-Eval vm_compute in ("<<<M2523>>>" ++ check (runes_of_ascii "12ab")).
-Eval vm_compute in ("<<<M2530>>>" ++ check (runes_of_ascii "a.b")).
-Eval vm_compute in ("<<<M2552>>>" ++ check (runes_of_ascii "a" ++ [233]%N)).
+Eval vm_compute in ("<<<M2732>>>" ++ check (runes_of_ascii " TdlH$1;l|=o#;&v&")).
+Eval vm_compute in ("<<<M2651>>>" ++ check (runes_of_ascii "MetaData M M { }")).
+Eval vm_compute in ("<<<M2627>>>" ++ check (runes_of_ascii "packet A { } }")).
+Eval vm_compute in ("<<<M151>>>" ++ check (runes_of_ascii "options { }")).
+Eval vm_compute in ("<<<M2479>>>" ++ check (runes_of_ascii "@leftPad(")).
+Eval vm_compute in ("<<<M2740>>>" ++ check (runes_of_ascii "6g/cniK")).
+Eval vm_compute in ("<<<M2429>>>" ++ check (runes_of_ascii "char_")).
+Eval vm_compute in ("<<<M3110>>>" ++ check (runes_of_ascii "// c" ++ [8287]%N)).
+Eval vm_compute in ("<<<M2544>>>" ++ check (runes_of_ascii "a
+b")).
+Eval vm_compute in ("<<<M2549>>>" ++ check (runes_of_ascii "a" ++ [8232]%N ++ runes_of_ascii "b")).
+Eval vm_compute in ("<<<M2442>>>" ++ check (runes_of_ascii "u")).
